@@ -41,6 +41,446 @@ NONDETERMINISTIC_CALLS = {"hash", "id", "uuid4", "uuid1", "time", "time_ns", "ge
 LOCATION_ATTRS = {"co_filename", "co_firstlineno", "co_lnotab", "co_linetable", "__file__"}
 
 
+# --------------------------------------------------------------------------------- helpers
+def _flow(fa, expr, at=None, _seen=None, _out=None):
+    """Every AST node whose value can reach `expr` by evaluation and copying: the sub-expressions of
+    `expr` and, for each local name read in it, the sub-expressions of the values assigned by the
+    definitions of that name that reach the read (transitively).  Returned as {id(node): node}."""
+    out = _out if _out is not None else {}
+    seen = _seen if _seen is not None else set()
+    if expr is None:
+        return out
+    ats = [at] if at is not None else fa.nodes(expr)
+    for n in ast.walk(expr):
+        out[id(n)] = n
+    for a in ats:
+        for n in ast.walk(expr):
+            if isinstance(n, ast.Name) and isinstance(n.ctx, ast.Load):
+                for d in fa.df.reaching(a, n.id):
+                    if d.value is None or (d.node, d.name) in seen:
+                        continue
+                    seen.add((d.node, d.name))
+                    _flow(fa, d.value, d.node, seen, out)
+    return out
+
+
+def _alternatives(fa, expr, at, depth=6):
+    """The expressions `expr` (evaluated at CFG node `at`) may stand for, as (expr, node) pairs: a local name is
+    followed to every definition that reaches it (several branches assigning it, a loop variable ranging over a
+    literal tuple / unpacked from a literal tuple of tuples); a conditional expression gives both arms.  What
+    cannot be followed is returned as it is."""
+    if depth <= 0:
+        return [(expr, at)]
+    if isinstance(expr, ast.IfExp):
+        return _alternatives(fa, expr.body, at, depth - 1) + _alternatives(fa, expr.orelse, at, depth - 1)
+    if isinstance(expr, ast.Name):
+        ds = fa.df.reaching(at, expr.id)
+        out = []
+        for d in ds:
+            if d.kind == "assign" and d.value is not None:
+                out += _alternatives(fa, d.value, d.node, depth - 1)
+                continue
+            if d.kind == "for" and isinstance(d.stmt, (ast.For, ast.AsyncFor)) and isinstance(d.stmt.iter, (ast.Tuple, ast.List)) and d.stmt.iter.elts:
+                tg, it = d.stmt.target, d.stmt.iter
+                if isinstance(tg, ast.Name):
+                    for e in it.elts:
+                        out += _alternatives(fa, e, d.node, depth - 1)
+                    continue
+                if isinstance(tg, (ast.Tuple, ast.List)) and all(isinstance(x, ast.Name) for x in tg.elts) \
+                        and all(isinstance(e, (ast.Tuple, ast.List)) and len(e.elts) == len(tg.elts) for e in it.elts):
+                    idx = [x.id for x in tg.elts].index(expr.id)
+                    for e in it.elts:
+                        out += _alternatives(fa, e.elts[idx], d.node, depth - 1)
+                    continue
+            return [(expr, at)]
+        return out or [(expr, at)]
+    return [(expr, at)]
+
+
+def _sources(fa, expr, at):
+    """Name-independent texts of what `expr` may stand for (see _alternatives)."""
+    return {fa.xnorm(e, a) for (e, a) in _alternatives(fa, expr, at)}
+
+
+def _call_arg(ck, call, callee_qual, name):
+    """The argument bound to parameter `name` of the callee, passed by keyword or by position."""
+    v = A.kwarg(call, name)
+    if v is not None:
+        return v
+    fi = ck.repo.try_func(callee_qual)
+    if fi is None or name not in fi.params:
+        return None
+    ps = [p_ for p_ in fi.params if not (p_ in ("self", "cls") and not fi.is_static)]
+    return A.arg_or_kw(call, ps.index(name), name) if name in ps else None
+
+
+def _single_conj(conds):
+    """The literals of a one-conjunct DNF, or None."""
+    if conds is None or len(conds) != 1:
+        return None
+    return set(next(iter(conds)))
+
+
+def _accumulators(fa):
+    """Locals that are filled element by element: `c = []` followed by one loop whose whole body is
+    `[if <cond>:] c.append(<elt>)`.  Returned as {name: equivalent list comprehension (AST)}, so that a test on such a
+    list can be read like a test on the comprehension it spells out."""
+    out = {}
+    for s in fa.stmts(ast.Assign):
+        if not (len(s.targets) == 1 and isinstance(s.targets[0], ast.Name)):
+            continue
+        v = s.value
+        if not ((isinstance(v, ast.List) and not v.elts) or (isinstance(v, ast.Call) and A.norm(v) == "list()")):
+            continue
+        name = s.targets[0].id
+        if sum(1 for s2 in fa.stmts() for t in (s2.targets if isinstance(s2, ast.Assign) else [getattr(s2, "target", None)])
+               if isinstance(t, ast.Name) and t.id == name) != 1:
+            continue
+        apps = [c for c in fa.calls("append") if isinstance(A.call_recv(c), ast.Name) and A.call_recv(c).id == name and len(c.args) == 1]
+        if len(apps) != 1:
+            continue
+        st = fa.stmt_of(apps[0])
+        conds = []
+        cur, par = st, fa.pm.get(st)
+        okp = isinstance(st, ast.Expr)
+        while okp and isinstance(par, ast.If):
+            if len(A.sig_stmts(par.body)) + len(A.sig_stmts(par.orelse)) != 1:
+                okp = False
+                break
+            conds.insert(0, par.test if cur in par.body else ast.UnaryOp(op=ast.Not(), operand=par.test))
+            cur, par = par, fa.pm.get(par)
+        if not okp or not isinstance(par, ast.For) or par.orelse or A.sig_stmts(par.body) != [cur] or not isinstance(par.target, ast.Name):
+            continue
+        comp = ast.ListComp(elt=apps[0].args[0], generators=[ast.comprehension(target=par.target, iter=par.iter, ifs=conds, is_async=0)])
+        comp._loop_tests = [c.operand if isinstance(c, ast.UnaryOp) and isinstance(c.op, ast.Not) and c not in ast.walk(par) else c for c in conds]
+        out[name] = ast.fix_missing_locations(comp)
+    return out
+
+
+def _exit_paths(fa, cap=20000):
+    """The acyclic paths from the entry to the NORMAL exit (a loop body is entered at most once; exception edges are
+    not followed), each as (list of CFG node ids, {literal text: polarity}).  Literals are FA's canonical ones
+    (locals expanded, negations normalised), read PATH-SENSITIVELY: a test on a boolean local is replaced by the
+    condition that local was last assigned on this very path (a constant decides the branch; an expression contributes
+    its own literals, provided nothing with an effect was executed in between), and a list filled by an append loop
+    reads as the comprehension it spells out.  None when there are too many paths."""
+    import copy
+    cfg = fa.cfg
+    acc = _accumulators(fa)
+    summarised = {id(t) for c in acc.values() for t in c._loop_tests}  # the filter tests of such loops say nothing about the path
+    out = []
+    count = [0]
+
+    class Sub(ast.NodeTransformer):
+        def visit_Name(self, n):
+            if isinstance(n.ctx, ast.Load) and n.id in acc:
+                return copy.deepcopy(acc[n.id])
+            return n
+
+    def effectful(nd):
+        a = nd.ast
+        if a is None or nd.kind not in ("stmt", "with", "for"):
+            return False
+        if isinstance(a, (ast.Assign, ast.AugAssign, ast.AnnAssign)):
+            tg = a.targets if isinstance(a, ast.Assign) else [a.target]
+            if any(not isinstance(t, ast.Name) for t in tg):
+                return True
+        return any(isinstance(x, ast.Call) and not (A.dotted(x.func) or "").startswith("log.") for x in A.walk_local(a))
+
+    def atoms(t, node_id, positive, env, path):
+        """literals of test `t` taken with the given polarity; None = this branch is infeasible."""
+        if isinstance(t, ast.UnaryOp) and isinstance(t.op, ast.Not):
+            return atoms(t.operand, node_id, not positive, env, path)
+        if isinstance(t, ast.BoolOp) and ((isinstance(t.op, ast.And) and positive) or (isinstance(t.op, ast.Or) and not positive)):
+            res = []
+            for v in t.values:
+                r = atoms(v, node_id, positive, env, path)
+                if r is None:
+                    return None
+                res += r
+            return res
+        if isinstance(t, ast.Constant):
+            return [] if bool(t.value) == positive else None
+        if isinstance(t, ast.Name) and t.id in env:
+            val, dnode, didx = env[t.id]
+            if isinstance(val, ast.Constant):
+                return [] if bool(val.value) == positive else None
+            if isinstance(val, (ast.Compare, ast.BoolOp, ast.UnaryOp, ast.Name, ast.Attribute)) and not any(isinstance(x, ast.Call) for x in ast.walk(val)) \
+                    and not any(effectful(cfg.node(i)) for i in path[didx + 1:]):
+                return atoms(val, dnode, positive, {k: v for k, v in env.items() if v[2] < didx}, path[:didx])
+        t2 = Sub().visit(copy.deepcopy(t)) if acc else t
+        # a local with several reaching definitions (which FA leaves unexpanded) reads, on THIS path, as the value it
+        # was last given: a constant always, another effect-free expression if nothing with an effect ran since
+        subs = {}
+        for nm in {x.id for x in ast.walk(t2) if isinstance(x, ast.Name) and isinstance(x.ctx, ast.Load) and x.id in env}:
+            if len(fa.df.reaching(node_id, nm)) <= 1:
+                continue
+            val, dnode, didx = env[nm]
+            if isinstance(val, ast.Constant):
+                subs[nm] = val
+            elif not any(isinstance(x, (ast.Call, ast.Lambda, ast.ListComp, ast.SetComp, ast.DictComp, ast.GeneratorExp, ast.Await, ast.NamedExpr)) for x in ast.walk(val)) \
+                    and not any(effectful(cfg.node(i)) for i in path[didx + 1:]):
+                subs[nm] = fa.expand(val, dnode)
+        if subs:
+            class S2(ast.NodeTransformer):
+                def visit_Name(self, n):
+                    return copy.deepcopy(subs[n.id]) if isinstance(n.ctx, ast.Load) and n.id in subs else n
+            t2 = S2().visit(copy.deepcopy(t2))
+            if isinstance(t2, ast.Compare) and len(t2.ops) == 1 and isinstance(t2.left, ast.Constant) and isinstance(t2.comparators[0], ast.Constant) \
+                    and isinstance(t2.ops[0], (ast.Is, ast.IsNot, ast.Eq, ast.NotEq)):
+                same = t2.left.value is t2.comparators[0].value if isinstance(t2.ops[0], (ast.Is, ast.IsNot)) else t2.left.value == t2.comparators[0].value
+                truth = same if isinstance(t2.ops[0], (ast.Is, ast.Eq)) else not same
+                return [] if truth == positive else None
+        return [fa._literal(t2, node_id, positive)]
+
+    def dfs(n, path, lits, env, twice):
+        if count[0] > cap:
+            return
+        if n == cfg.exit:
+            count[0] += 1
+            out.append((list(path), dict(lits)))
+            return
+        nd = cfg.node(n)
+        if nd.kind == "stmt" and isinstance(nd.ast, (ast.Assign, ast.AnnAssign, ast.AugAssign)):
+            tg = nd.ast.targets if isinstance(nd.ast, ast.Assign) else [nd.ast.target]
+            names = {x.id for t in tg for x in ast.walk(t) if isinstance(x, ast.Name) and isinstance(x.ctx, ast.Store)}
+            if names:
+                env = {k: v for k, v in env.items() if k not in names}
+                if isinstance(nd.ast, ast.Assign) and len(tg) == 1 and isinstance(tg[0], ast.Name):
+                    env[tg[0].id] = (nd.ast.value, n, len(path) - 1)
+        elif nd.kind in ("for", "with"):
+            tg = [nd.ast.target] if nd.kind == "for" else [i.optional_vars for i in nd.ast.items if i.optional_vars is not None]
+            names = {x.id for t in tg for x in ast.walk(t) if isinstance(x, ast.Name)}
+            env = {k: v for k, v in env.items() if k not in names}
+        is_loop_head = nd.kind == "for" or (nd.kind == "test" and isinstance(fa.pm.get(nd.ast), ast.While) and fa.pm.get(nd.ast).test is nd.ast)
+        for (d, l) in cfg.succ[n]:
+            if l == "exc":
+                continue
+            if n in twice and l != "F":
+                continue  # second arrival at a loop head: the loop can only be left
+            revisit = d in path
+            if revisit:
+                dn = cfg.node(d)
+                d_head = dn.kind == "for" or (dn.kind == "test" and isinstance(fa.pm.get(dn.ast), ast.While) and fa.pm.get(dn.ast).test is dn.ast)
+                if not d_head or d in twice:
+                    continue
+            add = []
+            if nd.kind == "test" and l in ("T", "F") and not (is_loop_head and nd.kind == "test") and id(nd.ast) not in summarised:
+                add = atoms(nd.ast, n, l == "T", env, path)
+                if add is None:
+                    continue
+            if any(lits.get(a[0], a[1]) != a[1] for a in add):
+                continue
+            new = dict(lits)
+            for a in add:
+                new[a[0]] = a[1]
+            path.append(d)
+            dfs(d, path, new, env, twice | {d} if revisit else twice)
+            path.pop()
+
+    dfs(cfg.entry, [cfg.entry], {}, {}, frozenset())
+    return None if count[0] > cap else out
+
+
+def _parse_lit(text):
+    try:
+        return ast.parse(text, mode="eval").body
+    except SyntaxError:
+        return None
+
+
+_EMPTY_INIT = ("set()", "[]", "list()", "frozenset()")
+
+
+def _split_atoms(t, positive):
+    """A test taken with the given polarity as a list of (atom AST, polarity): conjunctions taken true /
+    disjunctions taken false / negations are split; anything else is one atom."""
+    if isinstance(t, ast.UnaryOp) and isinstance(t.op, ast.Not):
+        return _split_atoms(t.operand, not positive)
+    if isinstance(t, ast.BoolOp) and ((isinstance(t.op, ast.And) and positive) or (isinstance(t.op, ast.Or) and not positive)):
+        out = []
+        for v in t.values:
+            out += _split_atoms(v, positive)
+        return out
+    return [(t, positive)]
+
+
+def _collection_spec(fa, expr, at, depth=4):
+    """What collection an expression builds, whatever its spelling: a comprehension / generator (possibly wrapped in
+    set() / list() / tuple() / frozenset()), a local assigned one, or a local initialised empty and filled by
+    `.add` / `.append` in ONE loop whose body only filters (`if c: continue` guards, nested ifs).  Returns a dict
+    {iter, iter_at, var, elt, atoms: [(test AST, polarity)], at} (the filter as atoms that must hold for an element
+    to be taken), or None."""
+    if depth <= 0 or expr is None:
+        return None
+    if isinstance(expr, ast.Call) and isinstance(expr.func, ast.Name) and expr.func.id in ("set", "list", "tuple", "frozenset") and len(expr.args) == 1 and not expr.keywords:
+        return _collection_spec(fa, expr.args[0], at, depth - 1)
+    if isinstance(expr, (ast.ListComp, ast.SetComp, ast.GeneratorExp)):
+        if len(expr.generators) != 1 or not isinstance(expr.generators[0].target, ast.Name):
+            return None
+        g = expr.generators[0]
+        atoms = []
+        for c in g.ifs:
+            atoms += _split_atoms(c, True)
+        return {"iter": g.iter, "iter_at": at, "var": g.target.id, "elt": expr.elt, "atoms": atoms, "at": at}
+    if isinstance(expr, ast.Name):
+        ds = fa.df.reaching(at, expr.id)
+        if len(ds) != 1 or ds[0].kind != "assign" or ds[0].value is None:
+            return None
+        d = ds[0]
+        if A.norm(d.value) not in _EMPTY_INIT:
+            return _collection_spec(fa, d.value, d.node, depth - 1)
+        name = expr.id
+        muts = [c for c in fa.calls() if isinstance(A.call_recv(c), ast.Name) and A.call_recv(c).id == name]
+        adds = [c for c in muts if A.call_attr(c) in ("add", "append") and len(c.args) == 1]
+        if len(adds) != 1 or len(muts) != 1:
+            return None
+        st = fa.stmt_of(adds[0])
+        if not isinstance(st, ast.Expr):
+            return None
+        atoms = []
+        cur = st
+        while True:
+            par = fa.pm.get(cur)
+            if isinstance(par, ast.If):
+                blk = par.body if cur in par.body else par.orelse
+                atoms = _split_atoms(par.test, cur in par.body) + atoms
+            elif isinstance(par, ast.For):
+                if cur not in par.body:
+                    return None
+                blk = par.body
+            else:
+                return None
+            # what precedes the statement in its block: only guards `if c: continue`
+            pre = []
+            for sib in A.sig_stmts(blk):
+                if sib is cur:
+                    break
+                if isinstance(sib, ast.If) and not A.sig_stmts(sib.orelse) and len(A.sig_stmts(sib.body)) == 1 and isinstance(A.sig_stmts(sib.body)[0], ast.Continue):
+                    pre += _split_atoms(sib.test, False)
+                else:
+                    return None
+            after = A.sig_stmts(blk)[A.sig_stmts(blk).index(cur) + 1:]
+            if any(not isinstance(x, ast.Continue) for x in after):
+                return None
+            atoms = pre + atoms
+            if isinstance(par, ast.For):
+                break
+            cur = par
+        loop = par
+        if loop.orelse or not isinstance(loop.target, ast.Name) or not fa.nodes(loop):
+            return None
+        if any(isinstance(x, (ast.Break, ast.Return)) for x in A.walk_local(loop)):
+            return None
+        ln = fa.nodes(loop)[0]
+        return {"iter": loop.iter, "iter_at": ln, "var": loop.target.id, "elt": adds[0].args[0], "atoms": atoms, "at": ln}
+    return None
+
+
+def _rename(node, old, new):
+    import copy
+    e = copy.deepcopy(node)
+    for n in ast.walk(e):
+        if isinstance(n, ast.Name) and n.id == old:
+            n.id = new
+    return e
+
+
+def _spec_literals(fa, spec):
+    """The filter of a collection spec as canonical literals (FA's spelling, the element variable called `_c0`,
+    operands of == as a sorted pair)."""
+    out = set()
+    for (t, pol) in spec["atoms"]:
+        (txt, p2) = fa._literal(_rename(t, spec["var"], "_c0"), spec["at"], pol)
+        e = _parse_lit(txt)
+        if isinstance(e, ast.Compare) and len(e.ops) == 1 and isinstance(e.ops[0], ast.Eq):
+            a_, b_ = sorted([A.norm(e.left), A.norm(e.comparators[0])])
+            txt = "%s == %s" % (a_, b_)
+        out.add((txt, p2))
+    return out
+
+
+def _visit_unit(ck):
+    """_visit_dependency together with the helpers of its class it was split into (methods of HashRule that it calls,
+    transitively, other than the rule classes' own protocol): the rules about the visit reason over all of them."""
+    root = FA(ck, CH + ".HashRule._visit_dependency")
+    cls = ck.repo.cls(CH + ".HashRule")
+    unit, names, work = [root], {root.fi.name}, [root]
+    while work:
+        cur = work.pop()
+        for c in cur.calls():
+            nm = A.call_attr(c)
+            rc = A.call_recv(c)
+            if nm in names or nm not in cls.methods or nm in ("collect_transitive_dependencies", "try_resolve", "compute_hash", "did_change", "clone", "describe"):
+                continue
+            if not (isinstance(rc, ast.Name) and rc.id in ("HashRule", "cls", "self")):
+                continue
+            fx = FA(ck, cls.methods[nm])
+            names.add(nm)
+            unit.append(fx)
+            work.append(fx)
+    return unit
+
+
+def _module_expand(mod, expr, depth=8):
+    """`expr` with the module-level names that are bound once, at module level, replaced by their values (a module
+    constant built through named temporaries reads like the one-expression form)."""
+    import copy
+    counts = {}
+    for st in mod.tree.body:
+        for t in (st.targets if isinstance(st, ast.Assign) else [st.target] if isinstance(st, (ast.AnnAssign, ast.AugAssign)) else []):
+            for x in ast.walk(t):
+                if isinstance(x, ast.Name):
+                    counts[x.id] = counts.get(x.id, 0) + 1
+
+    class T(ast.NodeTransformer):
+        def __init__(self, d):
+            self.d = d
+
+        def visit_Name(self, n):
+            if isinstance(n.ctx, ast.Load) and counts.get(n.id) == 1 and n.id in mod.assigns and self.d > 0:
+                return T(self.d - 1).visit(copy.deepcopy(mod.assigns[n.id]))
+            return n
+
+    return T(depth).visit(copy.deepcopy(expr))
+
+
+def _reads_attr(fa, expr, attr, at=None):
+    """Does the value of `expr` derive from `<something>.attr` / getattr(<something>, 'attr'[, default])?"""
+    for n in _flow(fa, expr, at).values():
+        if isinstance(n, ast.Attribute) and n.attr == attr:
+            return True
+        if isinstance(n, ast.Call) and A.call_attr(n) == "getattr" and len(n.args) >= 2 and A.const_str(n.args[1]) == attr:
+            return True
+    return False
+
+
+def _digest_fed_and_returned(fa, pred):
+    """Is there a hasher object `h` with an `h.update(<arg>)` such that pred(arg, node) holds, an
+    `h.hexdigest()` / `h.digest()` on the same object after it, and a return whose value derives from that
+    digest?  (Whatever the names of the hasher and of the temporaries, and whether the digest is
+    returned directly or through a variable.)"""
+    digs = [c for c in fa.calls() if A.call_attr(c) in ("hexdigest", "digest") and isinstance(A.call_recv(c), ast.Name)]
+    for u in fa.calls("update"):
+        rcv = A.call_recv(u)
+        if not isinstance(rcv, ast.Name) or not u.args:
+            continue
+        for un in fa.nodes(u):
+            if not pred(u.args[0], un):
+                continue
+            after = fa.cfg.reach([un])
+            for dg in digs:
+                if A.call_recv(dg).id != rcv.id:
+                    continue
+                for dn in fa.nodes(dg):
+                    if dn not in after or not fa.df.same_defs(rcv.id, un, dn):
+                        continue
+                    for r in fa.returns():
+                        if r.value is not None and fa.nodes(r) and id(dg) in _flow(fa, r.value):
+                            return True
+    return False
+
+
 # --------------------------------------------------------------------------------- C01.R1
 def check_hash_input_coverage(ck, R):
     ck.rule(R, "hash-input coverage: every code-object attribute the interpreter consults when running a function, and "
@@ -58,7 +498,8 @@ def check_hash_input_coverage(ck, R):
     ups = [c for c in h.calls("update")]
     feed = None
     for c in ups:
-        for d in [x for x in A.calls_in(c) if A.call_attr(x) == "dumps"]:
+        # json.dumps(<list>) may be passed directly or through a temporary
+        for d in [x for a_ in c.args for x in _flow(h, a_).values() if isinstance(x, ast.Call) and A.call_attr(x) == "dumps"]:
             if d.args and isinstance(d.args[0], ast.Name):
                 feed = d.args[0].id
     ck.need(feed is not None, "hash_if_code_object: no sha256.update(json.dumps(<list>)) found")
@@ -81,21 +522,31 @@ def check_hash_input_coverage(ck, R):
                 consumed.setdefault(n.attr, where)
             if isinstance(n, ast.Call) and A.call_attr(n) == "getattr" and len(n.args) >= 2 and A.norm(n.args[0]) == obj and A.const_str(n.args[1]):
                 consumed.setdefault(A.const_str(n.args[1]), where)
+    def roots(expr):
+        """the expression and the values of the temporaries it is built from (transitively)"""
+        out, seen, work = [expr], set(), [(expr, None)]
+        while work:
+            (e, at) = work.pop()
+            ats = [at] if at is not None else h.nodes(e)
+            for a_ in ats:
+                for n in ast.walk(e):
+                    if isinstance(n, ast.Name) and isinstance(n.ctx, ast.Load) and n.id != feed:
+                        for d in h.df.reaching(a_, n.id):
+                            if d.value is not None and d.kind in ("assign", "aug") and (d.node, d.name) not in seen:
+                                seen.add((d.node, d.name))
+                                out.append(d.value)
+                                work.append((d.value, d.node))
+        return out
+
     for s in h.stmts(ast.Assign):
         if any(isinstance(t, ast.Name) and t.id == feed for t in s.targets):
-            scan(s.value, s)
-    local_src = {}
-    for s in h.stmts(ast.Assign):
-        for t in s.targets:
-            if isinstance(t, ast.Name) and t.id != feed:
-                local_src[t.id] = s.value
+            for e in roots(s.value):
+                scan(e, s)
     for c in h.calls("append") + h.calls("extend"):
         if A.norm(A.call_recv(c)) == feed:
             for a in c.args:
-                scan(a, c)
-                for nm in A.names_in(a):
-                    if nm in local_src:
-                        scan(local_src[nm], c)
+                for e in roots(a):
+                    scan(e, c)
     for attr, why in CODE_RELEVANT.items():
         ok = attr in consumed
         if not ok and attr in narrowed:
@@ -105,13 +556,43 @@ def check_hash_input_coverage(ck, R):
             continue
         ck.ob(R, h.key(None, attr), ok, "%s reaches the digest" % attr if ok else
               "%s (%s) is not part of the code hash: an edit that only changes it keeps the version, and a stale result is served" % (attr, why), h.where())
-    # co_consts recursion
+    # co_consts recursion: some iteration over <obj>.co_consts that maps every element through the hasher
+    # itself (directly, or through a local lambda / def that does nothing but call the hasher on its
+    # argument) feeds the list that is digested
+    def is_hasher_call(call, var, depth=0):
+        if not (isinstance(call, ast.Call) and call.args and isinstance(call.args[0], ast.Name) and call.args[0].id == var):
+            return False
+        f = call.func
+        if isinstance(f, ast.Name) and f.id in (h.fi.name, h.node.name):
+            return True
+        if isinstance(f, ast.Name) and depth < 3:
+            # a local alias of the hasher
+            for st in h.stmts(ast.Assign):
+                if any(isinstance(t, ast.Name) and t.id == f.id for t in st.targets) and isinstance(st.value, ast.Lambda) \
+                        and st.value.args.args and isinstance(st.value.body, ast.Call):
+                    if is_hasher_call(st.value.body, st.value.args.args[0].arg, depth + 1):
+                        return True
+            sub = h.fi.nested.get(f.id)
+            if sub is not None and sub.params:
+                rets = [x for x in A.walk_body(sub.node) if isinstance(x, ast.Return)]
+                if len(rets) == 1 and len(A.sig_stmts(sub.node.body)) == 1 and is_hasher_call(rets[0].value, sub.params[0], depth + 1):
+                    return True
+        return False
+
     rec = False
+    feed_flow = {}
     for s in h.stmts(ast.Assign):
         if any(isinstance(t, ast.Name) and t.id == feed for t in s.targets):
-            for comp in [n for n in ast.walk(s.value) if isinstance(n, (ast.ListComp, ast.GeneratorExp))]:
-                if A.norm(comp.generators[0].iter) == obj + ".co_consts" and isinstance(comp.elt, ast.Call) and A.call_attr(comp.elt) == h.fi.name:
-                    rec = True
+            _flow(h, s.value, None, None, feed_flow)
+    for c in h.calls("append") + h.calls("extend"):
+        if A.norm(A.call_recv(c)) == feed:
+            for a in c.args:
+                _flow(h, a, None, None, feed_flow)
+    for comp in [n for n in feed_flow.values() if isinstance(n, (ast.ListComp, ast.GeneratorExp))]:
+        g0 = comp.generators[0]
+        if len(comp.generators) == 1 and not g0.ifs and isinstance(g0.target, ast.Name) and A.norm(g0.iter) == obj + ".co_consts" \
+                and is_hasher_call(comp.elt, g0.target.id):
+            rec = True
     ck.ob(R, h.key(None, "consts-recursive"), rec, "constants are hashed recursively (nested functions, lambdas, comprehensions)" if rec else
           "co_consts is not hashed through the hasher itself: edits inside nested code objects are invisible", h.where())
     # salt / environment
@@ -129,8 +610,8 @@ def check_hash_input_coverage(ck, R):
     for attr, why in FUNC_RELEVANT.items():
         ok = attr in got
         if ok:
-            # must flow into the returned value
-            ok = any("call:update" in outer.deps(r.value) or "call:hexdigest" in outer.deps(r.value) for r in outer.returns() if r.value is not None and isinstance(r.value, ast.Name))
+            # it is fed to a digest whose value is returned
+            ok = _digest_fed_and_returned(outer, lambda arg, at, attr=attr: _reads_attr(outer, arg, attr, at))
         ck.ob(R, outer.key(None, attr), ok, "%s reaches the digest" % attr if ok else
               "%s (%s) is not part of the code hash: editing a default value keeps the version, and a stale result is served" % (attr, why), outer.where())
     # every return of a code-based hash passes the reads of the defaults (no early exit, e.g.
@@ -178,15 +659,19 @@ def check_hash_input_coverage(ck, R):
                               "%s is read from another object than the one whose __code__ is hashed (before/after unwrapping decorators): for a "
                               "functools.wraps-decorated function the wrapper's defaults are hashed, so editing a default keeps the version" % attr, outer.where(st))
     # the code of the *unwrapped* function is hashed
-    unw = [w for w in outer.stmts(ast.While) if "__wrapped__" in A.norm(w.test)]
+    # some loop replaces the hashed object by its __wrapped__ (whatever the spelling of the loop condition)
+    unw = [s_ for s_ in outer.stmts(ast.Assign) if isinstance(s_.value, ast.Attribute) and s_.value.attr == "__wrapped__" and isinstance(s_.value.value, ast.Name)
+           and any(isinstance(t, ast.Name) and t.id == s_.value.value.id for t in s_.targets) and outer.enclosing(s_, ast.While) is not None]
     ck.ob(R, outer.key(None, "unwrap"), bool(unw), "decorator wrappers are unwrapped before hashing" if unw else
           "fn_code_hash no longer unwraps __wrapped__ chains", outer.where())
     # MementoFunction.__init__ stores the code hash unless a version is declared
     ini = FA(ck, MF + ".__init__")
     chs = [c for c in ini.calls("fn_code_hash")]
-    okc = len(chs) == 1 and A.norm(chs[0].args[0]) == "fn" and A.norm(A.kwarg(chs[0], "salt")) == "version_salt" and A.norm(A.kwarg(chs[0], "environment")) == "ENVIRONMENT_HASH_BYTES"
+    FCH = CH + ".fn_code_hash"
+    okc = len(chs) == 1 and A.norm(_call_arg(ck, chs[0], FCH, "fn")) == "fn" and A.norm(_call_arg(ck, chs[0], FCH, "salt")) == "version_salt" \
+        and A.norm(_call_arg(ck, chs[0], FCH, "environment")) == "ENVIRONMENT_HASH_BYTES"
     st = [s for s in ini.stmts(ast.Assign) if any(A.dotted(t) == "self.code_hash" for t in s.targets)]
-    okc = okc and len(st) == 1 and "call:fn_code_hash" in ini.deps(st[0].value)
+    okc = okc and bool(st) and all("call:fn_code_hash" in ini.deps(s_.value) for s_ in st)
     ck.ob(R, ini.key(None, "code-hash-stored"), okc, "the function's code hash (with salt and environment) is stored at definition" if okc else
           "MementoFunction.__init__ does not store fn_code_hash(fn, salt, environment) as code_hash", ini.where())
 
@@ -237,7 +722,9 @@ def check_rule_kinds_contribute(ck, R):
           "the variable rule is not built with _serialize_value(ref)", tr.where(ctor))
     sv = FA(ck, CH + ".GlobalVariableHashRule._serialize_value")
     d = [c for c in sv.calls("dumps")]
-    oks = len(d) == 1 and any(A.call_attr(x) == "encode_arg" and [A.norm(a) for a in x.args] == ["var"] for x in A.calls_in(d[0]))
+    p0 = sv.fi.params[0] if sv.fi.params else "var"
+    oks = len(d) == 1 and any(isinstance(x, ast.Call) and A.call_attr(x) == "encode_arg" and len(x.args) == 1 and sv.xnorm(x.args[0], sv.nodes(d[0])[0]) == p0
+                              for a_ in d[0].args[:1] for x in _flow(sv, a_).values())
     ck.ob(R, sv.key(None, "codec"), oks, "values are serialised through the argument codec" if oks else
           "_serialize_value does not serialise MementoCodec.encode_arg(var)", sv.where())
 
@@ -272,7 +759,7 @@ def check_digest_consumes_rules(ck, R):
                "traversal, filtered only by `hash is None`; the returned version is that digest", 4)
     fa = FA(ck, MF + "._recompute_version")
     coll = fa.one([c for c in fa.calls("collect_transitive_dependencies")], "collect_transitive_dependencies call")
-    res = A.kwarg(coll, "result")
+    res = _call_arg(ck, coll, CH + ".MementoFunctionHashRule.collect_transitive_dependencies", "result")
     ck.need(isinstance(res, ast.Name), "_recompute_version: result= is not a local set")
     loops = [n for n in fa.cfg.nodes if n.kind == "for" and any(A.call_attr(c) == "compute_hash" for c in A.calls_in(n.ast))]
     lp = fa.one(loops, "loop over hash rules")
@@ -293,22 +780,31 @@ def check_digest_consumes_rules(ck, R):
     ups = [c for c in A.calls_in(lp.ast) if A.call_attr(c) == "update"]
     okh = len(ups) == 1
     if okh:
-        g = fa.enclosing(ups[0], ast.If)
         lv = lp.ast.target.id if isinstance(lp.ast.target, ast.Name) else None
         # fields of the loop variable assigned, inside the loop, from compute_hash()
-        hash_fields = {A.norm(s.targets[0]) for s in A.walk_local(lp.ast)
-                       if isinstance(s, ast.Assign) and len(s.targets) == 1 and isinstance(s.targets[0], ast.Attribute)
-                       and isinstance(s.targets[0].value, ast.Name) and s.targets[0].value.id == lv
-                       and "call:compute_hash" in fa.deps(s.value)}
+        hash_fields = {A.norm(t) for s in A.walk_local(lp.ast)
+                       if isinstance(s, ast.Assign) and "call:compute_hash" in fa.deps(s.value)
+                       for t in s.targets
+                       if isinstance(t, ast.Attribute) and isinstance(t.value, ast.Name) and t.value.id == lv}
 
         def is_hash(e):
             return "call:compute_hash" in fa.deps(e) or any(A.norm(x) in hash_fields for x in ast.walk(e) if isinstance(x, ast.Attribute))
 
-        t = g.test if g is not None else None
-        okh = t is not None and isinstance(t, ast.Compare) and len(t.ops) == 1 and isinstance(t.ops[0], ast.IsNot) \
-            and A.norm(t.comparators[0]) == "None" and is_hash(t.left) and fa.inside(g, lp.ast)
-        inner_ifs = [i for i in A.walk_local(lp.ast) if isinstance(i, ast.If)]
-        okh = okh and len(inner_ifs) == 1 and not any(isinstance(s, (ast.Continue, ast.Break)) for s in A.walk_local(lp.ast))
+        # texts of `<the rule's hash> is None` as FA.conditions spells it (locals expanded)
+        none_lits = {f_ + " is None" for f_ in hash_fields}
+        for c_ in [c_ for c_ in A.calls_in(lp.ast) if A.call_attr(c_) == "compute_hash"]:
+            none_lits.add(fa.xnorm(c_, fa.nodes(c_)[0]) + " is None")
+        # decided on PATH CONDITIONS: the update is reached exactly when the hash is not None (whether written
+        # as `if h is not None: update`, `if h is None: continue`, or nested), and an iteration is abandoned
+        # early only when the hash is None; the loop is never left early
+        cu = fa.conditions(ups[0])
+        okh = cu is not None and len(cu) == 1 and len(next(iter(cu))) == 1 and all(l[0] in none_lits and l[1] is False for l in next(iter(cu)))
+        for s_ in A.walk_local(lp.ast):
+            if isinstance(s_, (ast.Break, ast.Return)):
+                okh = False
+            if isinstance(s_, ast.Continue):
+                cc = fa.conditions(s_)
+                okh = okh and cc is not None and all(any(l[0] in none_lits and l[1] is True for l in conj) for conj in cc)
         okh = okh and is_hash(ups[0].args[0])
     ck.ob(R, fa.key(lp.ast, "only-none-filter"), okh, "every non-None rule hash updates the digest" if okh else
           "a rule's hash can be skipped for a reason other than being None (or the digest is fed something else)", fa.where(lp.ast))
@@ -324,13 +820,17 @@ def check_digest_consumes_rules(ck, R):
             cf = ck.repo.try_func(cls.qual + ".compute_hash")
             if cf is None:
                 continue
-            for r in [n for n in A.walk_body(cf.node) if isinstance(n, ast.Return) and n.value is not None]:
-                for at in [x for x in ast.walk(r.value) if isinstance(x, ast.Attribute) and A.norm(x.value).endswith("memento_fn")]:
+            cfa = FA(ck, cf)
+            for r in [r_ for r_ in cfa.returns() if r_.value is not None and cfa.nodes(r_)]:
+                # attributes of the tracked function that can be returned (through temporaries or not)
+                for at in [x for x in _flow(cfa, r.value).values() if isinstance(x, ast.Attribute) and A.norm(x.value).endswith("memento_fn")]:
                     asg = [st for st in init.stmts(ast.Assign) if any(A.norm(t) == "self." + at.attr for t in st.targets)]
                     for st in asg:
                         ps = sorted(_copied_params(init, st.value, init.nodes(st)[0]))
                         if ps and at.attr not in [f[0] for f in free]:
-                            free.append((at.attr, ps, cls.name))
+                            free.append((at.attr, ps, cls.name, st.lineno))
+        # canonical order: the order in which the constructor assigns the fields
+        free.sort(key=lambda f: f[3])
         okf = delimited or not free
         ck.ob(R, fa.key(ups[0], "fold-injective:" + ",".join(f[0] for f in free)), okf,
               "rule hashes are folded with a delimiter" if delimited else "every folded piece has a fixed width" if okf else
@@ -342,7 +842,9 @@ def check_digest_consumes_rules(ck, R):
     okr = len(rets) == 1 and "call:hexdigest" in fa.deps(rets[0].value) and "call:sha256" in fa.deps(rets[0].value)
     ck.ob(R, fa.key(None, "returns-digest"), okr, "the version is the digest" if okr else "the returned version does not derive from the digest", fa.where())
     root = fa.one(fa.calls("MementoFunctionHashRule"), "self rule")
-    okroot = A.norm(A.kwarg(root, "obj")) == "self" and A.norm(A.kwarg(root, "first_level")) == "True" and A.norm(A.kwarg(coll, "root_fn")) == "self"
+    MRI = CH + ".MementoFunctionHashRule.__init__"
+    CTD = CH + ".MementoFunctionHashRule.collect_transitive_dependencies"
+    okroot = A.norm(_call_arg(ck, root, MRI, "obj")) == "self" and A.norm(_call_arg(ck, root, MRI, "first_level")) == "True" and A.norm(_call_arg(ck, coll, CTD, "root_fn")) == "self"
     ck.ob(R, fa.key(root, "self-rule-root"), okroot, "the traversal starts at the function's own rule" if okroot else
           "the traversal does not start from the function's own rule (obj=self, first_level=True, root_fn=self)", fa.where(root))
 
@@ -352,48 +854,77 @@ def check_descent_complete(ck, R):
     ck.rule(R, "transitive descent is complete: memento rules visit required and detected dependencies, plain-function "
                "rules every dotted name; every resolved rule is descended into; the only pruning is 'already collected', "
                "the blacklist, and package scope for plain functions", 8)
+    VD = CH + ".HashRule._visit_dependency"
     m = FA(ck, CH + ".MementoFunctionHashRule.collect_transitive_dependencies")
-    loops = [n.ast for n in m.cfg.nodes if n.kind == "for"]
     lnode = {id(x.ast): x.id for x in m.cfg.nodes if x.kind == "for"}
-    xiter = {id(l): m.xnorm(l.iter, lnode[id(l)]) for l in loops}
-    srcs = set(xiter.values())
+
+    def visits(fx):
+        """(call, innermost loop, what that loop may iterate) for every _visit_dependency call whose symbol= is the loop variable."""
+        ln = {id(x.ast): x.id for x in fx.cfg.nodes if x.kind == "for"}
+        out = []
+        for c in fx.calls("_visit_dependency"):
+            l = fx.enclosing(c, (ast.For, ast.AsyncFor))
+            sym = _call_arg(ck, c, VD, "symbol")
+            if l is None or id(l) not in ln or sym is None or not isinstance(l.target, ast.Name) or A.norm(sym) != l.target.id:
+                out.append((c, l, set()))
+                continue
+            out.append((c, l, _sources(fx, l.iter, ln[id(l)])))
+        return out
+
+    mv = visits(m)
+    del lnode
     for need in ("self.memento_fn.required_dependencies", "self.memento_fn.detected_dependencies"):
-        ok = need in srcs and any(xiter[id(l)] == need and any(A.call_attr(c) == "_visit_dependency" for c in A.calls_in(l)) for l in loops)
+        ok = any(need in srcs for (c, l, srcs) in mv)
         ck.ob(R, m.key(None, need.split(".")[2]), ok, "%s are visited" % need.split(".")[2] if ok else
               "a memento rule no longer visits %s: changes beneath them do not change the version" % need.split(".")[2], m.where())
-    for l in loops:
-        for c in [c for c in A.calls_in(l) if A.call_attr(c) == "_visit_dependency"]:
-            at_ = m.nodes(c)[0]
-            okv = A.norm(A.kwarg(c, "symbol")) == A.norm(l.target) and A.norm(A.kwarg(c, "result")) == "result" \
-                and A.kwarg(c, "src_fn") is not None and m.xnorm(A.kwarg(c, "src_fn"), at_) == "self.memento_fn.src_fn" \
-                and A.kwarg(c, "first_level") is not None and m.xnorm(A.kwarg(c, "first_level"), at_) == "self.memento_fn is root_fn"
-            ck.ob(R, m.key(None, "visit-args:" + xiter[id(l)].split(".")[-1]), okv, "each dependency symbol is resolved in the function's own globals, first_level iff root" if okv else
+    for (c, l, srcs) in mv:
+        at_ = m.nodes(c)[0]
+        a_res, a_src, a_fl = _call_arg(ck, c, VD, "result"), _call_arg(ck, c, VD, "src_fn"), _call_arg(ck, c, VD, "first_level")
+        okv = bool(srcs) and a_res is not None and A.norm(a_res) == "result" \
+            and a_src is not None and m.xnorm(a_src, at_) == "self.memento_fn.src_fn" \
+            and a_fl is not None and m.xnorm(a_fl, at_) in ("self.memento_fn is root_fn", "root_fn is self.memento_fn")
+        for src in sorted(srcs) or ["?"]:
+            ck.ob(R, m.key(None, "visit-args:" + src.split(".")[-1]), okv, "each dependency symbol is resolved in the function's own globals, first_level iff root" if okv else
                   "_visit_dependency is not called with (result, src_fn=memento_fn.src_fn, symbol=<dep>, first_level=memento_fn is root_fn)", m.where(c))
-    # pruning of memento rules: only `self in result`
-    rets = [r for r in m.returns()]
-    okp = all(isinstance(m.enclosing(r, ast.If), ast.If) and A.norm(m.enclosing(r, ast.If).test) == "self in result" for r in rets)
+    # pruning of memento rules: only `self in result`.  Decided on PATH CONDITIONS: the rule joins the set, and
+    # every dependency is visited, exactly when the rule was not collected before (guard clause, nesting and
+    # merged tests alike); the visiting loops are never left early
     adds = [c for c in m.calls("add") if A.norm(A.call_recv(c)) == "result" and [A.norm(a) for a in c.args] == ["self"]]
-    okp = okp and bool(adds) and "package" not in " ".join(A.norm(i.test) for i in m.stmts(ast.If))
+    want_m = {("self in result", False)}
+    okp = bool(adds) and all(_single_conj(m.conditions(c)) == want_m for c in adds + [c for (c, l, s_) in mv])
+    okp = okp and not any(isinstance(x, (ast.Break, ast.Return, ast.Continue)) for (c, l, s_) in mv if l is not None
+                          for lo in [l] + [p_ for p_ in m.stmts((ast.For, ast.While)) if m.inside(l, p_)] for x in A.walk_local(lo))
     ck.ob(R, m.key(None, "pruning"), okp, "memento rules are pruned only when already collected (never by package)" if okp else
           "a memento rule can be dropped for a reason other than 'already collected': cross-package memento dependencies stop versioning", m.where())
     n = FA(ck, CH + ".NonMementoFunctionHashRule.collect_transitive_dependencies")
-    nl = [x.ast for x in n.cfg.nodes if x.kind == "for"]
-    okn = len(nl) == 1 and n.xnorm(nl[0].iter, [x.id for x in n.cfg.nodes if x.kind == "for"][0]) == "list_dotted_names(self.src_fn)" and any(A.call_attr(c) == "_visit_dependency" and A.norm(A.kwarg(c, "symbol")) == A.norm(nl[0].target) for c in A.calls_in(nl[0]))
+    nv = visits(n)
+    okn = len(nv) == 1 and nv[0][2] == {"list_dotted_names(self.src_fn)"}
     ck.ob(R, n.key(None, "dotted-names"), okn, "plain functions are descended through every dotted name of their source" if okn else
           "a plain-function rule no longer visits list_dotted_names(src_fn)", n.where())
-    tests = [A.norm(i.test) for i in n.stmts(ast.If)]
-    okt = set(tests) <= {"self in result", "inspect.getmodule(self.src_fn).__package__ not in package_scope"} and "self in result" in tests
+    nadds = [c for c in n.calls("add") if A.norm(A.call_recv(c)) == "result" and [A.norm(a) for a in c.args] == ["self"]]
+    seen_lits = set()
+    okt = True
+    for c in nadds + [c for (c, l, s_) in nv]:
+        lits = _single_conj(n.conditions(c))
+        if lits is None:
+            okt = False
+            seen_lits.add("<several path classes>")
+            continue
+        seen_lits |= {("" if pol else "not ") + "(" + txt + ")" for (txt, pol) in lits}
+        scope = {l_ for l_ in lits if l_[1] is True and l_[0].endswith("getmodule(self.src_fn).__package__ in package_scope")}
+        okt = okt and ("self in result", False) in lits and not (lits - {("self in result", False)} - scope)
+    okt = okt and bool(nadds)
     ck.ob(R, n.key(None, "pruning"), okt, "plain functions are pruned only when collected already or outside the package scope" if okt else
-          "plain-function pruning conditions changed: %s" % tests, n.where())
-    okadd = bool([c for c in n.calls("add") if A.norm(A.call_recv(c)) == "result" and [A.norm(a) for a in c.args] == ["self"]])
+          "plain-function pruning conditions changed: %s" % sorted(seen_lits), n.where())
+    okadd = bool(nadds)
     ck.ob(R, n.key(None, "adds-self"), okadd, "the plain-function rule joins the rule set" if okadd else "the plain-function rule no longer adds itself", n.where())
     g = FA(ck, CH + ".GlobalVariableHashRule.collect_transitive_dependencies")
     okg = bool([c for c in g.calls("add") if [A.norm(a) for a in c.args] == ["self"]]) and not g.stmts(ast.If)
     ck.ob(R, g.key(None, "adds-self"), okg, "variable rules always join the rule set" if okg else "a variable rule can be left out of the rule set", g.where())
     # the traversal's parameters other than the accumulator are read-only (mutating the shared
     # scope / blacklist makes the rule set depend on the visiting order of a set)
-    for q in [c.qual + ".collect_transitive_dependencies" for c in hash_rule_classes(ck)] + [CH + ".HashRule._visit_dependency"]:
-        f = ck.repo.try_func(q)
+    for q in [c.qual + ".collect_transitive_dependencies" for c in hash_rule_classes(ck)] + [fx_.fi for fx_ in _visit_unit(ck)]:
+        f = ck.repo.try_func(q) if isinstance(q, str) else q
         if f is None:
             continue
         fx = FA(ck, f)
@@ -403,42 +934,93 @@ def check_descent_complete(ck, R):
         ck.ob(R, fx.key(None, "params-read-only"), not bad, "scope and blacklist are only read" if not bad else
               "`%s` mutates a traversal parameter shared by the whole descent: whether a helper gets a rule then depends on whether it is "
               "visited before or after (set iteration order, i.e. the hash seed)" % A.short(bad[0], 60), fx.where(bad[0] if bad else None))
-    # _visit_dependency: every resolved rule is descended into before returning
-    v = FA(ck, CH + ".HashRule._visit_dependency")
-    colls = v.nodes_all(v.calls("collect_transitive_dependencies"))
-    rule_tests = [x for x in v.cfg.nodes if x.kind == "test" and isinstance(x.ast, ast.Compare) and len(x.ast.ops) == 1 and isinstance(x.ast.ops[0], ast.IsNot)
-                  and A.norm(x.ast.comparators[0]) == "None" and isinstance(x.ast.left, ast.Name) and "call:resolve_symbol" in v.df.deps(x.ast.left, x.id)]
-    ck.need(len(rule_tests) >= 2, "_visit_dependency: `if rule is not None` sites not found")
-    for t in rule_tests:
-        starts = [d for (d, l) in v.cfg.succ[t.id] if l == "T"]
-        live = v.cfg.reach(starts, removed=colls)
-        ok = v.cfg.exit not in live
-        ck.ob(R, v.key(t.ast, "descend-before-return"), ok, "a resolved rule is descended into before returning" if ok else
-              "a resolved rule can be dropped without collect_transitive_dependencies: its subtree does not version the caller", v.where(t.ast))
-    for c in v.calls("collect_transitive_dependencies"):
-        okc = A.norm(A.kwarg(c, "result")) == "result" and A.norm(A.kwarg(c, "root_fn")) == "root_fn" and A.norm(A.kwarg(c, "package_scope")) == "package_scope"
-        ck.ob(R, v.key(c, "args"), okc, "the same result set / root / scope are passed down" if okc else
-              "the descent does not pass down (result, root_fn, package_scope)", v.where(c))
-    rs = v.fi.nested.get("resolve_symbol")
+    # _visit_dependency (with the helpers it may have been split into): every resolved rule is descended into
+    # before returning.  A helper may instead hand the rule back to its caller, which then has to descend.
+    unit = _visit_unit(ck)
+    v = unit[0]
+    helper_names = {fx.fi.name for fx in unit[1:]}
+    n_tests = 0
+    for fx in unit:
+        colls = fx.nodes_all(fx.calls("collect_transitive_dependencies"))
+        rule_tests = []
+        for x in fx.cfg.nodes:
+            if x.kind == "test" and isinstance(x.ast, ast.Compare) and len(x.ast.ops) == 1 and isinstance(x.ast.ops[0], (ast.IsNot, ast.Is)) \
+                    and A.is_none(x.ast.comparators[0]) and isinstance(x.ast.left, ast.Name) and x.id in fx.cfg.reachable_nodes():
+                d_ = fx.df.deps(x.ast.left, x.id)
+                if "call:resolve_symbol" in d_ or any(("call:" + h_) in d_ for h_ in helper_names):
+                    rule_tests.append(x)
+        n_tests += len(rule_tests)
+        for t in rule_tests:
+            some = "T" if isinstance(t.ast.ops[0], ast.IsNot) else "F"
+            starts = [d for (d, l) in fx.cfg.succ[t.id] if l == some]
+            handed_back = []
+            if fx is not v:
+                # `return <the tested rule>`: the caller gets it
+                handed_back = [i_ for r_ in fx.returns() if isinstance(r_.value, ast.Name) and r_.value.id == t.ast.left.id
+                               for i_ in fx.nodes(r_) if fx.df.same_defs(t.ast.left.id, t.id, i_)]
+            live = fx.cfg.reach(starts, removed=set(colls) | set(handed_back))
+            ok = fx.cfg.exit not in live
+            ck.ob(R, fx.key(t.ast, "descend-before-return"), ok, "a resolved rule is descended into before returning" if ok else
+                  "a resolved rule can be dropped without collect_transitive_dependencies: its subtree does not version the caller", fx.where(t.ast))
+        # a rule handed back by a helper must be looked at: after the call, the exit is reached only through
+        # the descent or through the 'no rule' outcome of a test on the result
+        for c in [c for c in fx.calls() if A.call_attr(c) in helper_names]:
+            hfa = [h_ for h_ in unit if h_.fi.name == A.call_attr(c)][0]
+            if not any(r_.value is not None and not A.is_none(r_.value) for r_ in hfa.returns()):
+                continue
+            none_edges = {(t.id, "F" if isinstance(t.ast.ops[0], ast.IsNot) else "T") for t in rule_tests}
+            live = fx.cfg.reach(fx.nodes(c), removed=colls, edge_ok=lambda s_, d_, l_: (s_, l_) not in none_edges, include_start=False)
+            ok = fx.cfg.exit not in live
+            ck.ob(R, fx.key(c, "descend-before-return"), ok, "the rule found by %s is descended into" % A.call_attr(c) if ok else
+                  "the rule found by %s can be dropped without collect_transitive_dependencies" % A.call_attr(c), fx.where(c))
+        for c in fx.calls("collect_transitive_dependencies"):
+            okc = A.norm(A.kwarg(c, "result")) == "result" and A.norm(A.kwarg(c, "root_fn")) == "root_fn" and A.norm(A.kwarg(c, "package_scope")) == "package_scope"
+            ck.ob(R, fx.key(c, "args"), okc, "the same result set / root / scope are passed down" if okc else
+                  "the descent does not pass down (result, root_fn, package_scope)", fx.where(c))
+    ck.need(n_tests >= 2, "_visit_dependency: `if rule is not None` sites not found")
+    rs = None
+    for fx in unit:
+        rs = rs or fx.fi.nested.get("resolve_symbol")
     ck.need(rs is not None, "_visit_dependency.resolve_symbol not found")
     rsa = FA(ck, rs)
+    # every decision resolve_symbol takes is either "is the object (identically) one of the blacklist" or
+    # "did this strategy resolve it": each branch test is classified by what it compares, whatever the loop /
+    # any() / result-variable spelling
     tests = []
-    for i_ in rsa.stmts(ast.If):
-        t_ = i_.test
-        if isinstance(t_, ast.Compare) and len(t_.ops) == 1 and isinstance(t_.ops[0], ast.IsNot) and A.norm(t_.comparators[0]) == "None" \
-                and isinstance(t_.left, ast.Name) and "call:try_resolve" in rsa.deps(t_.left):
-            tests.append("<try_resolve result> is not None")
-        elif isinstance(t_, ast.Call) and A.norm(t_.func) == "any" and len(t_.args) == 1 and isinstance(t_.args[0], (ast.GeneratorExp, ast.ListComp)) \
+    params = set(rsa.fi.params)
+    for_nodes = {id(x.ast): x.id for x in rsa.cfg.nodes if x.kind == "for"}
+
+    def over_blacklist(name, at):
+        """Is `name` a loop variable ranging over the blacklist?"""
+        return any(d.kind == "for" and d.value is not None and rsa.xnorm(d.value, d.node) == "blacklist" for d in rsa.df.reaching(at, name))
+
+    def classify(t_, at):
+        if isinstance(t_, ast.UnaryOp) and isinstance(t_.op, ast.Not):
+            return classify(t_.operand, at)
+        if isinstance(t_, ast.Compare) and len(t_.ops) == 1 and isinstance(t_.ops[0], (ast.IsNot, ast.Is)) and A.is_none(t_.comparators[0]) \
+                and "call:try_resolve" in rsa.df.deps(t_.left, at):
+            return "<try_resolve result> is not None"
+        if isinstance(t_, ast.Call) and A.norm(t_.func) == "any" and len(t_.args) == 1 and isinstance(t_.args[0], (ast.GeneratorExp, ast.ListComp)) \
                 and len(t_.args[0].generators) == 1 and isinstance(t_.args[0].generators[0].target, ast.Name) and not t_.args[0].generators[0].ifs \
-                and A.norm(t_.args[0].generators[0].iter) == "blacklist" and isinstance(t_.args[0].elt, ast.Compare) and len(t_.args[0].elt.ops) == 1 \
+                and rsa.xnorm(t_.args[0].generators[0].iter, at) == "blacklist" and isinstance(t_.args[0].elt, ast.Compare) and len(t_.args[0].elt.ops) == 1 \
                 and isinstance(t_.args[0].elt.ops[0], ast.Is) and {A.norm(t_.args[0].elt.left), A.norm(t_.args[0].elt.comparators[0])} - {t_.args[0].generators[0].target.id} \
-                <= set(rsa.fi.params) and len({A.norm(t_.args[0].elt.left), A.norm(t_.args[0].elt.comparators[0])}) == 2:
-            tests.append("<blacklist identity>")
-        else:
-            tests.append(A.norm(t_))
+                <= params and len({A.norm(t_.args[0].elt.left), A.norm(t_.args[0].elt.comparators[0])}) == 2:
+            return "<blacklist identity>"
+        if isinstance(t_, ast.Compare) and len(t_.ops) == 1 and isinstance(t_.ops[0], (ast.Is, ast.IsNot)) \
+                and isinstance(t_.left, ast.Name) and isinstance(t_.comparators[0], ast.Name):
+            a_, b_ = t_.left.id, t_.comparators[0].id
+            if (over_blacklist(a_, at) and b_ in params) or (over_blacklist(b_, at) and a_ in params):
+                return "<blacklist identity>"
+        return A.norm(t_)
+
+    for x in rsa.cfg.nodes:
+        if x.kind == "test" and x.id in rsa.cfg.reachable_nodes():
+            for atom in (A.conj_atoms(x.ast) if not (isinstance(x.ast, ast.BoolOp) and isinstance(x.ast.op, ast.Or)) else A.test_atoms(x.ast)):
+                tests.append(classify(atom, x.id))
     okb = set(tests) <= {"<blacklist identity>", "<try_resolve result> is not None"}
-    lp = [x.ast for x in rsa.cfg.nodes if x.kind == "for"]
-    okb = okb and len(lp) == 1 and A.norm(lp[0].iter) == "HashRule.all_rules"
+    lp = [x for x in rsa.cfg.nodes if x.kind == "for" and any(rsa.enclosing(c, (ast.For, ast.AsyncFor)) is x.ast for c in rsa.calls("try_resolve"))]
+    others = [x for x in rsa.cfg.nodes if x.kind == "for" and x not in lp and rsa.xnorm(x.ast.iter, x.id) != "blacklist"]
+    okb = okb and len(lp) == 1 and rsa.xnorm(lp[0].ast.iter, lp[0].id) == "HashRule.all_rules" and not others and not rsa.stmts(ast.While)
     ck.ob(R, rsa.key(None, "blacklist-by-identity"), okb, "symbols are excluded only by blacklist identity; all rule strategies are tried" if okb else
           "resolve_symbol excludes symbols by something other than blacklist identity, or does not try every strategy: %s" % tests, rsa.where())
     # rule strategies registered
@@ -588,6 +1170,12 @@ def _stable_repr_function(ck, name):
                             if good:
                                 ok_any = True
                                 continue
+                        if isinstance(par, ast.Call) and isinstance(par.func, ast.Name) and par.func.id == "map" and len(par.args) == 2 and par.args[1] is n \
+                                and isinstance(par.args[0], ast.Name) and par.args[0].id == name:
+                            outer = pm.get(par)
+                            if isinstance(outer, ast.Call) and A.call_attr(outer) == "sorted" and outer.args and outer.args[0] is par and not outer.keywords:
+                                ok_any = True
+                                continue
                         return False
             # no fallback path that iterates in raw order (e.g. except TypeError: list(o))
             if any(isinstance(n, ast.Try) for st in i.body for n in ast.walk(st)):
@@ -604,10 +1192,15 @@ def check_determinism_taint(ck, R):
     for modname in ("code_hash", "memento", "configuration", "reference"):
         mod = ck.repo.module(modname)
         for fi in mod.all_funcs():
-            ups = [c for c in A.body_calls(fi.node) if (A.call_attr(c) == "update" and "sha" in A.norm(A.call_recv(c))) or A.call_dotted(c) == "hashlib.sha256"]
-            if not ups:
+            cand = [c for c in A.body_calls(fi.node) if (A.call_attr(c) == "update" and isinstance(A.call_recv(c), ast.Name)) or A.call_dotted(c) == "hashlib.sha256"]
+            if not cand:
                 continue
             fa = FA(ck, fi)
+            # a digest sink: hashlib.sha256(<data>) or <h>.update(<data>) where <h> was made by hashlib (whatever it is called)
+            ups = [c for c in cand if A.call_dotted(c) == "hashlib.sha256" or "sha" in A.norm(A.call_recv(c))
+                   or (fa.nodes(c) and any(x.startswith("callq:hashlib.") for x in fa.deps(A.call_recv(c), fa.nodes(c)[0])))]
+            if not ups:
+                continue
             for c in ups:
                 if not c.args:
                     continue
@@ -621,6 +1214,7 @@ def check_determinism_taint(ck, R):
     cfgm = ck.repo.module("configuration")
     env = cfgm.assigns.get("ENVIRONMENT_HASH_BYTES")
     ck.need(env is not None, "configuration.ENVIRONMENT_HASH_BYTES not found")
+    env = _module_expand(cfgm, env)
     dumps = [c for c in ast.walk(env) if isinstance(c, ast.Call) and A.call_attr(c) == "dumps"]
     oke = len(dumps) == 1 and A.norm(A.kwarg(dumps[0], "sort_keys")) == "True" and not any(
         isinstance(c, ast.Call) and A.call_attr(c) in NONDETERMINISTIC_CALLS | {"platform", "version_info", "getcwd", "gethostname"} for c in ast.walk(env))
@@ -707,15 +1301,23 @@ def check_determinism_taint(ck, R):
     fnm = ck.repo.try_func(CH + ".NonMementoFunctionHashRule._function_name")
     if fnm is not None:
         f3 = FA(ck, fnm)
-        appends = [s_ for s_ in f3.stmts(ast.AugAssign) if "symbol" in A.names_in(s_.value)]
-        okm = False
+        # decided on PATH CONDITIONS: the statements that put the symbol into the name are executed whenever the
+        # qualified name carries one of the two markers (whatever the spelling of the test; unconditionally is fine too)
+        sym = f3.fi.params[1] if len(f3.fi.params) > 1 else "symbol"
+        appends = [s_ for s_ in f3.stmts((ast.AugAssign, ast.Assign, ast.Return)) if getattr(s_, "value", None) is not None and sym in A.names_in(s_.value) and f3.nodes(s_)]
+        have = set()
         for s_ in appends:
-            g = f3.enclosing(s_, ast.If)
-            if g is None:
-                okm = True
-            else:
-                marks = set(A.strings_in(g.test))
-                okm = {"<lambda>", "<locals>"} <= marks
+            have |= f3.conditions(s_) or set()
+        qn = None
+        for x in A.walk_body(f3.node):
+            if isinstance(x, ast.Attribute) and x.attr == "__qualname__":
+                qn = A.norm(x)
+        okm = False
+        if appends and qn is not None:
+            from .keys import dnf_compare
+            want = {frozenset({("'<lambda>' in " + qn, True)}), frozenset({("'<locals>' in " + qn, True)})}
+            r_ = dnf_compare(want, have)
+            okm = bool(r_) and r_[0]
         ck.ob(R, f3.key(None, "non-unique-qualnames"), okm, "the symbol is appended for every function whose qualified name is not unique (<lambda>, <locals>)" if okm else
               "the symbol is appended to the rule key only for some non-unique qualified names: two closures made by one factory (or two lambdas) "
               "used by one function still share a key, so the version depends on the hash seed", f3.where())
@@ -780,74 +1382,177 @@ def check_update_protocol(ck, R):
     cfg = fa.cfg
     rec = fa.nodes_all(fa.calls("_recompute_version"))
     ck.need(rec, "_update_dependencies: _recompute_version call not found")
-    # tests are recognised on their expansion (locals replaced by what they were assigned)
-    xt = {n.id: fa.xnorm(n.ast, n.id) for n in cfg.nodes if n.kind == "test"}
-    gen_tests = [i for i, t in xt.items() if "as_of_generation" in t and "_global_fn_generation" in t]
-    chg_tests = [i for i, t in xt.items() if "did_change()" in t]
-    exp_tests = [i for i, t in xt.items() if t == "self.explicit_version is not None"]
-    lock_tests = [i for i, t in xt.items() if ".locked" in t and "get_cluster(" in t]
-    ok_shape = len(gen_tests) == 1 and len(chg_tests) == 1 and len(exp_tests) == 1 and len(lock_tests) == 1
+    # The protocol is decided on the PATH CLASSES of the function (_exit_paths): every acyclic path to the normal
+    # exit with the branch literals taken on it (locals expanded, negations / nesting / guard clauses / boolean
+    # flags normalised away), and the protocol events (recompute, bump, store) it passes, in order.
+    GEN = "MementoFunction._global_fn_generation"
+    CACHE = "MementoFunction._global_fn_version_cache"
+    paths = _exit_paths(fa)
+    ck.need(paths is not None, "_update_dependencies: too many paths")
+
+    def changed_coll(e):
+        """'exact' for `[r for r in self._hash_rules if r.did_change()]` (any comprehension kind / variable name),
+        'partial' for another expression that asks did_change()."""
+        if isinstance(e, (ast.ListComp, ast.GeneratorExp, ast.SetComp)) and len(e.generators) == 1:
+            g_ = e.generators[0]
+            if isinstance(g_.target, ast.Name) and A.norm(g_.iter) == "self._hash_rules" and A.norm(e.elt) == g_.target.id \
+                    and [A.norm(c) for c in g_.ifs] == [g_.target.id + ".did_change()"]:
+                return "exact"
+        return "partial" if "did_change()" in A.norm(e) else None
+
+    def classify(text):
+        """(role, detail) of one literal."""
+        if text == "self.explicit_version is None":
+            return ("explicit", None)
+        if text == "self._calculated_version is None":
+            return ("has-version", None)
+        e = _parse_lit(text)
+        if e is None:
+            return (None, None)
+        if isinstance(e, ast.Attribute) and e.attr == "locked" and "get_cluster(" in text:
+            return ("locked", None)
+        if isinstance(e, ast.Compare) and len(e.ops) == 1:
+            l_, r_ = A.norm(e.left), A.norm(e.comparators[0])
+            for (a_, b_, flip) in ((l_, r_, False), (r_, l_, True)):
+                if a_ == GEN and CACHE in b_ and isinstance((e.comparators[0] if not flip else e.left), ast.Attribute):
+                    return ("generation", (type(e.ops[0]).__name__, (e.comparators[0] if not flip else e.left).attr))
+            if isinstance(e.ops[0], ast.Eq) and {l_, r_} == {"self._calculated_version", "self._recompute_version()"}:
+                return ("same-version", None)
+            # emptiness of the changed-rule collection: len(C) > 0 / != 0 / >= 1 / == 0 / < 1, either operand order
+            for (x_, y_, flip) in ((e.left, e.comparators[0], False), (e.comparators[0], e.left, True)):
+                if isinstance(x_, ast.Call) and A.norm(x_.func) == "len" and len(x_.args) == 1 and changed_coll(x_.args[0]):
+                    op = type(e.ops[0]).__name__
+                    if flip:
+                        op = {"Gt": "Lt", "Lt": "Gt", "GtE": "LtE", "LtE": "GtE"}.get(op, op)
+                    k_ = A.norm(y_)
+                    nonempty = {("Gt", "0"): True, ("GtE", "1"): True, ("Eq", "0"): False, ("Lt", "1"): False, ("LtE", "0"): False}.get((op, k_))
+                    return ("changed", (changed_coll(x_.args[0]), nonempty))
+        if changed_coll(e) is not None:
+            return ("changed", (changed_coll(e), True))
+        if "did_change()" in text:
+            return ("changed", ("partial", None))
+        return (None, None)
+
+    roles = {}
+    for (_p, lits) in paths:
+        for t in lits:
+            if t not in roles:
+                roles[t] = classify(t)
+    by_role = {}
+    for t, (ro, det) in roles.items():
+        if ro is not None:
+            by_role.setdefault(ro, []).append(t)
+    ok_shape = all(len(by_role.get(ro, [])) == 1 for ro in ("explicit", "locked", "generation", "changed"))
     ck.ob(R, fa.key(None, "shape"), ok_shape, "explicit-version, locked-cluster, generation and changed-rule tests present" if ok_shape else
-          "_update_dependencies no longer has exactly one explicit-version / locked / generation / changed-rules test", fa.where())
+          "_update_dependencies no longer has exactly one explicit-version / locked / generation / changed-rules test (found %s)"
+          % {ro: len(by_role.get(ro, [])) for ro in ("explicit", "locked", "generation", "changed")}, fa.where())
     if not ok_shape:
         return
-    gt = cfg.node(gen_tests[0]).ast
-    okeq = isinstance(gt, ast.Compare) and len(gt.ops) == 1 and isinstance(gt.ops[0], ast.Eq)
+    T_EXP, T_LOCK, T_GEN, T_CHG = (by_role[ro][0] for ro in ("explicit", "locked", "generation", "changed"))
+
+    def test_node(text):
+        """the branch test that contributes the literal (for the obligation's location)."""
+        for n_ in cfg.nodes:
+            if n_.kind == "test" and n_.id in cfg.reachable_nodes():
+                for (txt, _pol) in fa._atoms(n_.ast, n_.id, True) + fa._atoms(n_.ast, n_.id, False):
+                    if txt == text:
+                        return n_.ast
+        return None
+
+    gt = test_node(T_GEN)
+    gen_op, gen_field = roles[T_GEN][1]
+    okeq = gen_op == "Eq"
     ck.ob(R, fa.key(gt, "generation-equal"), okeq, "the cache entry must be of exactly the current generation" if okeq else
           "the generation test is not an equality: an entry computed before newer definitions is trusted", fa.where(gt))
-    ct = cfg.node(chg_tests[0]).ast
-    okct = isinstance(ct, ast.Name) or (
-        isinstance(ct, ast.Compare) and len(ct.ops) == 1 and isinstance(ct.ops[0], (ast.Gt, ast.NotEq)) and A.norm(ct.comparators[0]) == "0"
-        and isinstance(ct.left, ast.Call) and A.norm(ct.left.func) == "len" and len(ct.left.args) == 1 and isinstance(ct.left.args[0], ast.Name))
+    ct = test_node(T_CHG)
+    if ct is None:
+        # the literal comes from a list filled by a loop / a flag: locate the test that reads that local
+        acc_ = _accumulators(fa)
+        for n_ in cfg.nodes:
+            if ct is None and n_.kind == "test" and any(isinstance(x, ast.Name) and x.id in acc_ for x in ast.walk(n_.ast)):
+                ct = n_.ast
+    chg_kind, chg_nonempty = roles[T_CHG][1]
+    okct = chg_nonempty is not None
     ck.ob(R, fa.key(ct, "changed-test"), okct, "any changed rule counts" if okct else "the changed-rules test is not 'non-empty'", fa.where(ct))
-    # (a) normal exits that keep the cached version: paths to exit avoiding recompute and the explicit/locked exits
-    def edge_ok(s, d, l):
-        if s in exp_tests and l == "T":
-            return False
-        if s in lock_tests and l == "T":
-            return False
-        if s in gen_tests and l == "T":
-            # allowed continuation only via 'no rule changed' (F edge of the changed test)
-            return True
-        return True
-    live = cfg.reach([cfg.entry], removed=rec, edge_ok=edge_ok)
-    # among those, reaching exit must have passed gen_test(T) and chg_test(F)
-    live2 = cfg.reach([cfg.entry], removed=rec, edge_ok=lambda s, d, l: edge_ok(s, d, l) and not (s in chg_tests and l == "F"))
-    ok_a = cfg.exit in live and cfg.exit not in live2
-    live3 = cfg.reach([cfg.entry], removed=rec, edge_ok=lambda s, d, l: edge_ok(s, d, l) and not (s in gen_tests and l == "T"))
-    ok_a = ok_a and cfg.exit not in live3
+
+    def changed(lits):
+        """True / False / None: on this path some rule changed / no rule changed / not asked."""
+        if T_CHG not in lits or chg_nonempty is None:
+            return None
+        return lits[T_CHG] == chg_nonempty
+
+    def first(path, nodes, after=-1):
+        for i_, x in enumerate(path):
+            if i_ > after and x in nodes:
+                return i_
+        return None
+
+    recs = set(rec)
+    # (a) normal exits that keep the cached version: explicit version, locked cluster, or (current generation AND no rule changed)
+    bad_a = None
+    for (pth, lits) in paths:
+        if first(pth, recs) is not None:
+            continue
+        if lits.get(T_EXP) is False or lits.get(T_LOCK) is True:
+            continue
+        if okeq and lits.get(T_GEN) is True and changed(lits) is False:
+            continue
+        bad_a = bad_a or (pth, lits)
+    ok_a = bad_a is None and any(first(pth, recs) is None and lits.get(T_GEN) is True for (pth, lits) in paths)
     ck.ob(R, fa.key(None, "keep-cached-only-if-current"), ok_a,
           "the cached version is kept only for a current-generation entry with no changed rule" if ok_a else
-          "the cached version can be kept without (entry of the current generation AND no rule changed)", fa.where())
+          "the cached version can be kept without (entry of the current generation AND no rule changed)%s"
+          % ((": path %s" % cfg.describe_path(bad_a[0])) if bad_a else ""), fa.where())
     # changed rules are computed from did_change over the current hash rules
-    cr = [s for s in fa.stmts(ast.Assign) if any(A.call_attr(c) == "did_change" for c in A.calls_in(s.value))]
-    okcr = len(cr) == 1 and isinstance(cr[0].value, ast.ListComp) and len(cr[0].value.generators) == 1 \
-        and A.norm(cr[0].value.generators[0].iter) == "self._hash_rules" and isinstance(cr[0].value.generators[0].target, ast.Name) \
-        and [A.norm(c) for c in cr[0].value.generators[0].ifs] == [cr[0].value.generators[0].target.id + ".did_change()"] \
-        and A.norm(cr[0].value.elt) == cr[0].value.generators[0].target.id
-    ck.ob(R, fa.key(cr[0] if cr else None, "all-rules-asked"), okcr, "every current hash rule is asked did_change()" if okcr else
+    okcr = chg_kind == "exact"
+    ck.ob(R, fa.key(ct, "all-rules-asked"), okcr, "every current hash rule is asked did_change()" if okcr else
           "changed_rules is not [rule for rule in self._hash_rules if rule.did_change()]", fa.where())
     # (b) changed => bump and recompute
-    incs = fa.nodes_all(fa.calls("increment_global_fn_generation"))
-    starts = [d for (d, l) in cfg.succ[chg_tests[0]] if l == "T"]
-    liveT = cfg.reach(starts, removed=incs)
-    ok_b = bool(incs) and cfg.exit not in liveT and not (set(rec) & liveT)
-    liveT2 = cfg.reach(starts, removed=rec)
-    ok_b = ok_b and cfg.exit not in liveT2
+    incs = set(fa.nodes_all(fa.calls("increment_global_fn_generation")))
+    ok_b = bool(incs) and any(changed(lits) is True for (_p, lits) in paths)
+    for (pth, lits) in paths:
+        if changed(lits) is True:
+            i_inc = first(pth, incs)
+            i_rec = first(pth, recs)
+            if i_inc is None or i_rec is None or i_rec < i_inc:
+                ok_b = False
     ck.ob(R, fa.key(ct, "changed-bumps-and-recomputes"), ok_b, "a changed rule bumps the generation and leads to recomputation" if ok_b else
           "after a changed rule the updater can return without bumping the generation and recomputing", fa.where(ct))
     # (c) every path through recompute stores a current-generation cache entry
-    stores = [s for s in fa.stmts(ast.Assign) if any(isinstance(t, ast.Subscript) and "_global_fn_version_cache" in A.norm(t.value) for t in s.targets)]
-    ok_c = len(stores) == 1
-    if ok_c:
-        sn = fa.nodes(stores[0])
-        for r in rec:
-            if cfg.exit in cfg.reach([r], removed=sn, include_start=False):
-                ok_c = False
-        v = stores[0].value
-        ok_c = ok_c and isinstance(v, ast.Call) and A.norm(A.kwarg(v, "as_of_generation")) == "MementoFunction._global_fn_generation" \
-            and A.kwarg(v, "version") is not None and fa.xnorm(A.kwarg(v, "version"), fa.nodes(stores[0])[0]) == "self._recompute_version()" \
-            and A.norm(stores[0].targets[0].slice) == "self.qualified_name_without_version"
+    def nt_fields(ctor):
+        m_ = ck.repo.module("memento")
+        v_ = m_.assigns.get(A.call_attr(ctor) or "")
+        if isinstance(v_, ast.Call) and A.call_attr(v_) == "namedtuple" and len(v_.args) == 2 and isinstance(v_.args[1], (ast.List, ast.Tuple)):
+            return [A.const_str(e) for e in v_.args[1].elts]
+        if isinstance(v_, ast.Call) and A.call_attr(v_) == "namedtuple" and len(v_.args) == 2 and A.const_str(v_.args[1]):
+            return A.const_str(v_.args[1]).replace(",", " ").split()
+        c_ = m_.classes.get(A.call_attr(ctor) or "")
+        if c_ is not None:
+            # typing.NamedTuple / dataclass: the annotated class attributes, in order
+            return [x.target.id for x in c_.node.body if isinstance(x, ast.AnnAssign) and isinstance(x.target, ast.Name)]
+        return None
+
+    stores = [s_ for s_ in fa.stmts(ast.Assign) if fa.nodes(s_) and any(isinstance(t, ast.Subscript) and fa.xnorm(t.value, fa.nodes(s_)[0]) == CACHE for t in s_.targets)]
+    ok_c = bool(stores)
+    for s_ in stores:
+        at_ = fa.nodes(s_)[0]
+        v = fa.expand(s_.value, at_)
+        flds = nt_fields(v) if isinstance(v, ast.Call) else None
+        if flds is None and isinstance(v, ast.Call) and not v.args:
+            flds = []  # all fields are named at the call: their order does not matter
+        okv = flds is not None and len(s_.targets) == 1
+        if okv:
+            bound = dict(zip(flds, v.args))
+            bound.update({k.arg: k.value for k in v.keywords})
+            okv = gen_field in bound and A.norm(bound[gen_field]) == GEN \
+                and any(f_ != gen_field and fa.xnorm(e_, at_) == "self._recompute_version()" for f_, e_ in bound.items()) \
+                and fa.xnorm(s_.targets[0].slice, at_) == "self.qualified_name_without_version"
+        ok_c = ok_c and okv
+    sn = set(fa.nodes_all(stores))
+    for (pth, lits) in paths:
+        i_rec = first(pth, recs)
+        if i_rec is not None and first(pth, sn, i_rec) is None:
+            ok_c = False
     ck.ob(R, fa.key(stores[0] if stores else None, "cache-store"), ok_c, "each recomputation stores (current generation, version) under the function's name" if ok_c else
           "a recomputation can finish without storing a cache entry stamped with the current generation and the new version", fa.where())
     vdef = [s for s in fa.stmts(ast.Assign) if A.norm(s.value) == "self._recompute_version()"]
@@ -872,20 +1577,20 @@ def check_update_protocol(ck, R):
         ck.ob(R, fa.key(s_, "version-from-own-evaluation"), own, "the calculated version comes from this instance's own recomputation" if own else
               "`%s` adopts a version from the shared cache without evaluating any rule: an unregistered wrapper (empty rule list) keeps that "
               "version for ever, also after a tracked variable changed" % A.short(s_, 60), fa.where(s_))
-    neq = [i for i, t in xt.items() if t == "self._calculated_version != self._recompute_version()"]
-    ck.ob(R, fa.key(None, "adopts-new-version"), len(neq) == 1, "a differing recomputed version is adopted" if len(neq) == 1 else
+    # a recomputed version that differs from the calculated one is adopted: every path through the recomputation
+    # either found them equal or assigns the calculated version (from the recomputation) afterwards
+    asn = set(fa.nodes_all([s_ for s_ in asg if "call:_recompute_version" in fa.deps(s_.value)]))
+    ok_n = len(by_role.get("same-version", [])) == 1 and bool(asn)
+    for (pth, lits) in paths:
+        i_rec = first(pth, recs)
+        if i_rec is not None and ok_n and lits.get(by_role["same-version"][0]) is not True and first(pth, asn, i_rec) is None:
+            ok_n = False
+    ck.ob(R, fa.key(None, "adopts-new-version"), ok_n, "a differing recomputed version is adopted" if ok_n else
           "the updater does not compare the calculated version with the recomputed one", fa.where())
     # (e) locked-cluster early exit guarded by 'already has a calculated version'
-    lt = cfg.node(lock_tests[0]).ast
-    g = fa.enclosing(fa.pm.get(lt) if not isinstance(fa.pm.get(lt), ast.If) else lt, ast.If)
-    outer_if = None
-    n = fa.pm.get(lt)
-    while n is not None:
-        if isinstance(n, ast.If) and A.norm(n.test) == "self._calculated_version is not None":
-            outer_if = n
-        n = fa.pm.get(n)
-    ok_e = outer_if is not None and any(isinstance(a, ast.Compare) and isinstance(a.ops[0], ast.IsNot) and A.norm(a.comparators[0]) == "None"
-                                        and "get_cluster(" in fa.xnorm(a.left, lock_tests[0]) for a in A.conj_atoms(lt))
+    lt = test_node(T_LOCK)
+    locked_paths = [(pth, lits) for (pth, lits) in paths if lits.get(T_LOCK) is True and first(pth, recs) is None]
+    ok_e = bool(locked_paths) and all(lits.get("self._calculated_version is None") is False for (pth, lits) in locked_paths)
     ck.ob(R, fa.key(lt, "locked-needs-version"), ok_e, "a locked cluster freezes only an already calculated version" if ok_e else
           "the locked-cluster exit is not guarded by `self._calculated_version is not None`: a never-computed version stays None", fa.where(lt))
     # registration bumps the generation before registering
@@ -893,20 +1598,29 @@ def check_update_protocol(ck, R):
     inc = ini.nodes_all(ini.calls("increment_global_fn_generation"))
     reg = ini.nodes_all(ini.calls("register_function"))
     ok_r = bool(inc) and bool(reg) and all(ini.cfg.must_pass(inc, i) for i in reg)
-    g2 = [ini.enclosing(c, ast.If) for c in ini.calls("increment_global_fn_generation")]
-    ok_r = ok_r and all(x is not None and A.norm(x.test) == "register_fn" for x in g2)
+    # (registering implies bumping is what must_pass says; the bump needs no particular guard of its own)
     ck.ob(R, ini.key(None, "registration-bumps"), ok_r, "defining a function bumps the generation before it is registered" if ok_r else
           "a newly defined function does not bump the global generation: other functions keep versions computed before it existed", ini.where())
     uf = FA(ck, MF + "._update_fn_reference")
     fr = uf.calls("FunctionReference")
-    okf = len(fr) == 1 and A.norm(A.kwarg(fr[0], "version")) == "self.version()" and A.norm(A.kwarg(fr[0], "cluster_name")) == "self.cluster_name" \
-        and A.norm(A.kwarg(fr[0], "partial_args")) == "self.partial_args" and A.norm(A.kwarg(fr[0], "partial_kwargs")) == "self.partial_kwargs" \
+    FRI = "reference.FunctionReference.__init__"
+
+    def fr_arg(name):
+        a_ = _call_arg(ck, fr[0], FRI, name)
+        return uf.xnorm(a_, uf.nodes(fr[0])[0]) if a_ is not None and uf.nodes(fr[0]) else None
+
+    okf = len(fr) == 1 and fr_arg("version") == "self.version()" and fr_arg("cluster_name") == "self.cluster_name" \
+        and fr_arg("partial_args") == "self.partial_args" and fr_arg("partial_kwargs") == "self.partial_kwargs" \
         and any(A.dotted(t) == "self._fn_reference" for s_ in uf.stmts(ast.Assign) for t in s_.targets)
     ck.ob(R, uf.key(None, "reference-from-current-version"), okf, "the reference is rebuilt with the current version and the partials" if okf else
           "_update_fn_reference does not rebuild FunctionReference(self, cluster, version=self.version(), partials)", uf.where())
     vv = FA(ck, MF + ".version")
-    okv = any(A.call_attr(c) == "_update_dependencies" for c in vv.calls()) and any(A.norm(r.value) == "self._calculated_version" for r in vv.returns()) \
-        and all(vv.cfg.must_pass(vv.nodes_all(vv.calls("_update_dependencies")), i) for r in vv.returns() if A.norm(r.value) == "self._calculated_version" for i in vv.nodes(r))
+    # wherever the answer is read from the calculated version (directly in a return, or into a result variable
+    # that is returned), that read comes after the refresh
+    upd_n = vv.nodes_all(vv.calls("_update_dependencies"))
+    reads = [(e, a) for r in vv.returns() if r.value is not None for i_ in vv.nodes(r) for (e, a) in _alternatives(vv, r.value, i_)
+             if any(isinstance(x, ast.Attribute) and A.norm(x) == "self._calculated_version" for x in ast.walk(e))]
+    okv = bool(upd_n) and bool(reads) and all(vv.cfg.must_pass(upd_n, a) for (e, a) in reads)
     ck.ob(R, vv.key(None, "version-refreshes"), okv, "version() refreshes before answering the calculated version" if okv else
           "version() can answer the calculated version without refreshing dependencies", vv.where())
     ig = FA(ck, MF + ".increment_global_fn_generation")
@@ -1000,22 +1714,42 @@ def check_did_change(ck, R):
         captured = want.get(cls.name, ())
         ok = False
         why = ""
-        allowed_false_guard = {"GlobalVariableHashRule": ("self.last_value is None",)}.get(cls.name, ())
+        # the answer False without a comparison is allowed only when nothing is tracked.  Decided on PATH
+        # CONDITIONS of every way the constant False can be answered: a `return False`, or a result variable
+        # that still holds its initial False at the return (FA.outcomes)
+        allowed_false_guard = {"GlobalVariableHashRule": (("self.last_value is None", True),)}.get(cls.name, ())
+
+        def is_false(e):
+            return isinstance(e, ast.Constant) and e.value is False
+
+        shortcut = set()
         for r in fa.returns():
-            if isinstance(r.value, ast.Constant) and r.value.value is False:
-                g = fa.enclosing(r, ast.If)
-                okg = g is not None and A.norm(g.test) in allowed_false_guard
-                ck.ob(R, fa.key(r, "no-shortcut"), okg, "`return False` only when nothing is tracked" if okg else
-                      "%s.did_change answers False early under `%s`: a value changed without re-binding the name (list.append, dict[k] = v) or "
-                      "an equal-looking replacement is never noticed" % (cls.name, A.short(g.test, 50) if g is not None else "no guard"), fa.where(r))
-        rets = [r for r in fa.returns() if r.value is not None and not (isinstance(r.value, ast.Constant) and r.value.value is False and fa.enclosing(r, ast.If) is not None)]
+            if r.value is None or not fa.nodes(r):
+                continue
+            conjs = None
+            if is_false(r.value):
+                conjs = fa.conditions(r)
+            elif isinstance(r.value, ast.Name) and any(d.value is not None and is_false(d.value) for i_ in fa.nodes(r) for d in fa.df.reaching(i_, r.value.id)):
+                oc = fa.outcomes(r.value.id)
+                conjs = None if oc is None else [lits for (lits, txt) in oc if txt == "False"]
+            else:
+                continue
+            shortcut.add(id(r))
+            okg = conjs is not None and all(any(l in conj for l in allowed_false_guard) for conj in conjs)
+            extra = sorted({("" if l[1] else "not ") + l[0] for conj in (conjs or []) for l in conj if l not in allowed_false_guard})
+            ck.ob(R, fa.key(r, "no-shortcut"), okg, "False is answered without comparing only when nothing is tracked" if okg else
+                  "%s.did_change answers False early under `%s`: a value changed without re-binding the name (list.append, dict[k] = v) or "
+                  "an equal-looking replacement is never noticed" % (cls.name, "; ".join(extra)[:80] if extra else "no guard"), fa.where(r))
+        rets = [r for r in fa.returns() if r.value is not None and fa.nodes(r) and not (is_false(r.value) and id(r) in shortcut and fa.enclosing(r, ast.If) is not None)]
         if not rets:
             why = "returns a constant"
         for r in rets:
             d = fa.deps(r.value)
-            fresh = "call:resolver" in d or (cls.name == "UndefinedSymbolHashRule" and ("call:hasattr" in d or any(isinstance(n, ast.Compare) and isinstance(n.ops[0], ast.In) for n in ast.walk(r.value))))
+            fl = list(_flow(fa, r.value).values())
+            has_in = any(isinstance(n, ast.Compare) and isinstance(n.ops[0], ast.In) for n in fl)
+            fresh = "call:resolver" in d or (cls.name == "UndefinedSymbolHashRule" and ("call:hasattr" in d or has_in))
             cap = all(("attr:self." + c) in d for c in captured)
-            cmp_ = any(isinstance(n, ast.Compare) and isinstance(n.ops[0], (ast.Is, ast.IsNot, ast.Eq, ast.NotEq, ast.In, ast.NotIn)) for n in ast.walk(r.value)) or "call:hasattr" in d
+            cmp_ = any(isinstance(n, ast.Compare) and isinstance(n.ops[0], (ast.Is, ast.IsNot, ast.Eq, ast.NotEq, ast.In, ast.NotIn)) for n in fl) or "call:hasattr" in d
             if isinstance(r.value, ast.Constant):
                 why = "returns the constant %r" % r.value.value
                 ok = False
@@ -1051,78 +1785,78 @@ def check_every_symbol_watched(ck, R):
 def check_resolver_closures(ck, R):
     ck.rule(R, "resolvers re-resolve from the root: a function passed as a rule's resolver closes over the global table "
                "and name parts only, never over an object obtained by evaluating the dotted chain", 2)
-    v = FA(ck, CH + ".HashRule._visit_dependency")
-    # names derived from evaluation: assigned from a resolver()/getattr()/subscript of the global table, or from `ref`
-    derived = set()
-    changed = True
-    assigns = [(s, t.id) for s in v.stmts(ast.Assign) for t in s.targets if isinstance(t, ast.Name)]
-    while changed:
-        changed = False
-        for (s, name) in assigns:
-            if name in derived:
-                continue
-            val = s.value
-            is_eval = False
-            for n in ast.walk(val):
-                if isinstance(n, ast.Call) and (A.call_attr(n) in ("getattr",) or (isinstance(n.func, ast.Name) and n.func.id.startswith("resolver")) or A.call_attr(n) == "memento_fn_resolver"):
-                    is_eval = True
-                if isinstance(n, ast.Subscript) and A.norm(n.value) == "global_table":
-                    is_eval = True
-                if isinstance(n, ast.Name) and n.id in derived:
-                    is_eval = True
-            if is_eval:
-                derived.add(name)
-                changed = True
     n_res = 0
-    for name, sub in v.fi.nested.items():
-        if not name.startswith("resolver"):
-            continue
-    # all nested defs named like resolvers (there can be several with the same name: walk the AST)
-    for node in ast.walk(v.node):
-        if isinstance(node, ast.FunctionDef) and node is not v.node and "resolver" in node.name and node.name != "resolve_symbol":
-            n_res += 1
-            params = {a.arg for a in node.args.args + node.args.kwonlyargs}
-            local = set(params)
-            for s in ast.walk(node):
-                if isinstance(s, ast.Assign):
-                    for t in s.targets:
-                        if isinstance(t, ast.Name):
-                            local.add(t.id)
-                if isinstance(s, (ast.For, ast.comprehension)) and isinstance(s.target, ast.Name):
-                    local.add(s.target.id)
-            free = {n.id for b in node.body for n in ast.walk(b) if isinstance(n, ast.Name) and isinstance(n.ctx, ast.Load)} - local
-            bad = sorted(free & derived)
-            ck.ob(R, "%s::def %s@%s" % (v.qual, node.name, "loop" if v.enclosing(node, ast.For) is not None else "top"), not bad,
-                  "resolver re-resolves from the global table" if not bad else
-                  "resolver closes over %s, an object obtained while evaluating the chain: when an intermediate object is replaced "
-                  "(class re-executed, module attribute rebound) the rule keeps looking at the old object and did_change never fires" % bad,
-                  A.loc(v.fi, node))
+    for v in _visit_unit(ck):
+        # names derived from evaluation: assigned from a resolver()/getattr()/subscript of the global table, or from `ref`
+        derived = set()
+        changed = True
+        assigns = [(s, t.id) for s in v.stmts(ast.Assign) for t in s.targets if isinstance(t, ast.Name)]
+        while changed:
+            changed = False
+            for (s, name) in assigns:
+                if name in derived:
+                    continue
+                val = s.value
+                is_eval = False
+                for n in ast.walk(val):
+                    if isinstance(n, ast.Call) and (A.call_attr(n) in ("getattr",) or (isinstance(n.func, ast.Name) and n.func.id.startswith("resolver")) or A.call_attr(n) == "memento_fn_resolver"):
+                        is_eval = True
+                    if isinstance(n, ast.Subscript) and A.norm(n.value) == "global_table":
+                        is_eval = True
+                    if isinstance(n, ast.Name) and n.id in derived:
+                        is_eval = True
+                if is_eval:
+                    derived.add(name)
+                    changed = True
+        for name, sub in v.fi.nested.items():
+            if not name.startswith("resolver"):
+                continue
+        # all nested defs named like resolvers (there can be several with the same name: walk the AST)
+        for node in ast.walk(v.node):
+            if isinstance(node, ast.FunctionDef) and node is not v.node and "resolver" in node.name and node.name != "resolve_symbol":
+                n_res += 1
+                params = {a.arg for a in node.args.args + node.args.kwonlyargs}
+                local = set(params)
+                for s in ast.walk(node):
+                    if isinstance(s, ast.Assign):
+                        for t in s.targets:
+                            if isinstance(t, ast.Name):
+                                local.add(t.id)
+                    if isinstance(s, (ast.For, ast.comprehension)) and isinstance(s.target, ast.Name):
+                        local.add(s.target.id)
+                free = {n.id for b in node.body for n in ast.walk(b) if isinstance(n, ast.Name) and isinstance(n.ctx, ast.Load)} - local
+                bad = sorted(free & derived)
+                ck.ob(R, "%s::def %s@%s" % (v.qual, node.name, "loop" if v.enclosing(node, ast.For) is not None else "top"), not bad,
+                      "resolver re-resolves from the global table" if not bad else
+                      "resolver closes over %s, an object obtained while evaluating the chain: when an intermediate object is replaced "
+                      "(class re-executed, module attribute rebound) the rule keeps looking at the old object and did_change never fires" % bad,
+                      A.loc(v.fi, node))
+        # a resolver tells "the name is gone" apart from "the name is bound to None": None is a legal tracked value, so a
+        # resolver that answers None for a missing name makes the deletion of a None-valued variable invisible
+        for node in ast.walk(v.node):
+            if isinstance(node, ast.FunctionDef) and node is not v.node and "resolver" in node.name and node.name not in ("resolve_symbol", "memento_fn_resolver"):
+                nones = []
+                for x in ast.walk(node):
+                    if isinstance(x, ast.IfExp) and A.is_none(x.orelse) and isinstance(x.test, ast.Compare) and isinstance(x.test.ops[0], ast.In):
+                        nones.append(x)
+                    if isinstance(x, ast.Call) and A.call_attr(x) == "getattr" and len(x.args) == 3 and A.is_none(x.args[2]):
+                        nones.append(x)
+                    if isinstance(x, ast.Call) and A.call_attr(x) == "get" and "global_table" in A.norm(A.call_recv(x)) and (len(x.args) == 1 or A.is_none(x.args[1])):
+                        nones.append(x)
+                ck.ob(R, "%s::def %s@%s::missing-is-not-none" % (v.qual, node.name, "loop" if v.enclosing(node, ast.For) is not None else "top"), not nones,
+                      "a missing name resolves to a sentinel of its own" if not nones else
+                      "`%s`: the resolver answers None for a name that no longer exists, the same as for a name bound to None: deleting a tracked variable "
+                      "whose value is None leaves the cached version in place although a fresh computation sees an undefined symbol" % (A.short(nones[0], 60) if nones else ""),
+                      A.loc(v.fi, nones[0] if nones else node))
+        # rules that watch for a symbol to appear must also look it up from the root each time
+        for c in v.calls("UndefinedSymbolHashRule"):
+            base = c.args[0] if c.args else A.kwarg(c, "ref")
+            rr = A.kwarg(c, "ref_resolver")
+            pinned = isinstance(base, ast.Name) and base.id in derived and rr is None
+            ck.ob(R, v.key(c, "undefined-symbol-base"), not pinned, "the undefined-symbol rule re-resolves the object it watches" if not pinned else
+                  "the undefined-symbol rule is given `%s`, an object obtained while evaluating the chain, and no resolver: after `helper = other` the rule "
+                  "still asks the OLD object whether the attribute appeared, so the version never changes" % base.id, v.where(c))
     ck.need(n_res >= 2, "_visit_dependency: resolver closures not found")
-    # a resolver tells "the name is gone" apart from "the name is bound to None": None is a legal tracked value, so a
-    # resolver that answers None for a missing name makes the deletion of a None-valued variable invisible
-    for node in ast.walk(v.node):
-        if isinstance(node, ast.FunctionDef) and node is not v.node and "resolver" in node.name and node.name not in ("resolve_symbol", "memento_fn_resolver"):
-            nones = []
-            for x in ast.walk(node):
-                if isinstance(x, ast.IfExp) and A.is_none(x.orelse) and isinstance(x.test, ast.Compare) and isinstance(x.test.ops[0], ast.In):
-                    nones.append(x)
-                if isinstance(x, ast.Call) and A.call_attr(x) == "getattr" and len(x.args) == 3 and A.is_none(x.args[2]):
-                    nones.append(x)
-                if isinstance(x, ast.Call) and A.call_attr(x) == "get" and "global_table" in A.norm(A.call_recv(x)) and (len(x.args) == 1 or A.is_none(x.args[1])):
-                    nones.append(x)
-            ck.ob(R, "%s::def %s@%s::missing-is-not-none" % (v.qual, node.name, "loop" if v.enclosing(node, ast.For) is not None else "top"), not nones,
-                  "a missing name resolves to a sentinel of its own" if not nones else
-                  "`%s`: the resolver answers None for a name that no longer exists, the same as for a name bound to None: deleting a tracked variable "
-                  "whose value is None leaves the cached version in place although a fresh computation sees an undefined symbol" % (A.short(nones[0], 60) if nones else ""),
-                  A.loc(v.fi, nones[0] if nones else node))
-    # rules that watch for a symbol to appear must also look it up from the root each time
-    for c in v.calls("UndefinedSymbolHashRule"):
-        base = c.args[0] if c.args else A.kwarg(c, "ref")
-        rr = A.kwarg(c, "ref_resolver")
-        pinned = isinstance(base, ast.Name) and base.id in derived and rr is None
-        ck.ob(R, v.key(c, "undefined-symbol-base"), not pinned, "the undefined-symbol rule re-resolves the object it watches" if not pinned else
-              "the undefined-symbol rule is given `%s`, an object obtained while evaluating the chain, and no resolver: after `helper = other` the rule "
-              "still asks the OLD object whether the attribute appeared, so the version never changes" % base.id, v.where(c))
 
 
 def check_field_call_lint(ck, R):
@@ -1184,7 +1918,10 @@ def check_dotted_names(ck, R):
     ck.ob(R, fa.key(None, "visit-Attribute"), oka, "attribute chains are recorded and their sub-expressions still visited" if oka else
           "attribute chains are no longer recorded (module.attr references are missed) or their sub-expressions are skipped", fa.where())
     if "visit_Attribute" in methods:
-        ev = [s for s in ast.walk(methods["visit_Attribute"]) if isinstance(s, ast.FunctionDef) and s is not methods["visit_Attribute"]]
+        # the chain evaluator: the method itself, the functions nested in it and the methods of the visitor it calls
+        va = methods["visit_Attribute"]
+        ev = [va] + [m_ for nm_, m_ in methods.items() if nm_ not in ("visit_Attribute", "visit_Name", "generic_visit", "__init__")
+                     and any(isinstance(c, ast.Call) and A.call_attr(c) == nm_ for c in ast.walk(va))]
         kinds = set()
         for e in ev:
             for i in ast.walk(e):
@@ -1194,63 +1931,121 @@ def check_dotted_names(ck, R):
         okk = {"ast.Attribute", "ast.Call", "ast.Name"} <= kinds
         ck.ob(R, fa.key(None, "chain-forms"), okk, "chains through attributes, calls and names are resolved" if okk else
               "the chain evaluator no longer handles %s" % sorted({"ast.Attribute", "ast.Call", "ast.Name"} - kinds), fa.where())
-    # roles: RES = the extracted name set (receiver of the difference_update calls), LOCALS = the set
-    # filled from the code object, TOREM = the other set subtracted
-    du0 = [c for c in fa.calls("difference_update") if isinstance(A.call_recv(c), ast.Name) and len(c.args) == 1 and isinstance(c.args[0], ast.Name)]
+    # roles: RES = the extracted name set (what is returned / cached and reduced in place).  Every reduction of RES
+    # is classified by WHAT IS SUBTRACTED: (L) the locals = a set whose elements come from exactly co_varnames and
+    # co_cellvars of fn.__code__ (set()+update, set(a) | set(b), union, {*a, *b} alike), or (C) the chains rooted
+    # at locals = the elements of RES itself whose first component is a member of such a set (comprehension or
+    # filtering loop alike).  Anything else narrows the name set.
+    WANT = {"fn.__code__.co_varnames", "fn.__code__.co_cellvars"}
+    du0 = [c for c in fa.calls("difference_update") if isinstance(A.call_recv(c), ast.Name) and len(c.args) == 1]
     RES = A.call_recv(du0[0]).id if du0 else "result"
-    argn = [c.args[0].id for c in du0 if A.call_recv(c).id == RES]
-    LOCALS = next((a for a in argn if any(A.norm(A.call_recv(c)) == a for c in fa.calls("update"))), "local_vars")
-    TOREM = next((a for a in argn if a != LOCALS), "to_remove")
-    ups = [c for c in fa.calls("update") if A.norm(A.call_recv(c)) == LOCALS]
+
+    def local_sources(e, at, depth=6):
+        """where the elements of a set-valued expression come from (attribute chains)"""
+        if depth <= 0 or e is None:
+            return {"<?>"}
+        if isinstance(e, ast.Call) and isinstance(e.func, ast.Name) and e.func.id in ("set", "frozenset", "list", "tuple"):
+            if not e.args:
+                return set()
+            return local_sources(e.args[0], at, depth - 1) if len(e.args) == 1 else {"<?>"}
+        if isinstance(e, ast.BinOp) and isinstance(e.op, ast.BitOr):
+            return local_sources(e.left, at, depth - 1) | local_sources(e.right, at, depth - 1)
+        if isinstance(e, ast.Call) and A.call_attr(e) == "union" and A.call_recv(e) is not None:
+            out = local_sources(A.call_recv(e), at, depth - 1)
+            for a in e.args:
+                out |= local_sources(a, at, depth - 1)
+            return out
+        if isinstance(e, (ast.Set, ast.List, ast.Tuple)):
+            out = set()
+            for x in e.elts:
+                out |= local_sources(x.value, at, depth - 1) if isinstance(x, ast.Starred) else {"<element %s>" % A.norm(x)}
+            return out
+        if isinstance(e, ast.Name) and fa.df.is_local(e.id) and e.id not in fa.fi.params:
+            ds = fa.df.reaching(at, e.id)
+            if ds and all(d.kind == "assign" and d.value is not None and not isinstance(d.value, (ast.Attribute, ast.Name)) for d in ds):
+                out = set()
+                for d in ds:
+                    out |= local_sources(d.value, d.node, depth - 1)
+                for c in fa.calls():
+                    if isinstance(A.call_recv(c), ast.Name) and A.call_recv(c).id == e.id and fa.nodes(c):
+                        if A.call_attr(c) == "update":
+                            for a in c.args:
+                                out |= local_sources(a, fa.nodes(c)[0], depth - 1)
+                        elif A.call_attr(c) in ("add", "discard", "remove", "difference_update", "intersection_update", "clear", "pop", "symmetric_difference_update"):
+                            out.add("<%s>" % A.norm(c))
+                return out
+        ch = fa.df.chains(e, at)
+        return set(ch) if ch else {"<not a plain attribute of fn.__code__>: " + A.norm(e)}
+
+    def first_component_of(e, var):
+        return A.norm(e) in ("%s[0:%s.find('.')]" % (var, var), "%s[:%s.find('.')]" % (var, var), "%s.split('.')[0]" % var,
+                             "%s.split('.', 1)[0]" % var, "%s.partition('.')[0]" % var)
+
+    def chains_rooted_at_locals(arg, at):
+        """is `arg` {x for x in RES if ['.' in x and] <first component of x> in <the locals>}?"""
+        spec = _collection_spec(fa, arg, at)
+        if spec is None or not isinstance(spec["iter"], ast.Name) or spec["iter"].id != RES or A.norm(spec["elt"]) != spec["var"]:
+            return False
+        member = 0
+        for (t, pol) in spec["atoms"]:
+            if isinstance(t, ast.Compare) and len(t.ops) == 1 and isinstance(t.ops[0], (ast.In, ast.NotIn)):
+                pol_in = pol if isinstance(t.ops[0], ast.In) else not pol
+                if pol_in and A.norm(t.left) in ("'.'", '"."') and A.norm(t.comparators[0]) == spec["var"]:
+                    continue
+                if pol_in and first_component_of(t.left, spec["var"]) and local_sources(t.comparators[0], spec["at"]) in [WANT] + subtracted_sets:
+                    member += 1
+                    continue
+            return False
+        return member >= 1
+
+    reductions = []  # (statement, subtracted expression or None)
+    for st in fa.stmts():
+        if not fa.nodes(st):
+            continue
+        if isinstance(st, ast.Assign) and any(isinstance(t, ast.Name) and t.id == RES for t in st.targets):
+            if not (isinstance(st.value, ast.Attribute) and st.value.attr == "references" and isinstance(st.value.value, ast.Name)
+                    and fa.xnorm(st.value.value, fa.nodes(st)[0]).endswith("()")):
+                if isinstance(st.value, ast.BinOp) and isinstance(st.value.op, ast.Sub) and A.norm(st.value.left) == RES:
+                    reductions.append((st, st.value.right))
+                else:
+                    reductions.append((st, None))
+        if isinstance(st, ast.AugAssign) and isinstance(st.target, ast.Name) and st.target.id == RES:
+            reductions.append((st, st.value if isinstance(st.op, ast.Sub) else None))
+        if isinstance(st, ast.Expr) and isinstance(st.value, ast.Call) and A.norm(A.call_recv(st.value)) == RES \
+                and A.call_attr(st.value) in ("difference_update", "intersection_update", "discard", "remove", "clear", "pop", "symmetric_difference_update"):
+            reductions.append((st, st.value.args[0] if A.call_attr(st.value) == "difference_update" and len(st.value.args) == 1 else None))
+    klass = {}
     srcs = set()
-    for c in ups:
-        if c.args:
-            ch = None
-            for i in fa.nodes(c):
-                ch = fa.df.chains(c.args[0], i)
-            srcs |= ch if ch else {"<not a plain attribute of fn.__code__>: " + A.norm(c.args[0])}
-    okl = srcs == {"fn.__code__.co_varnames", "fn.__code__.co_cellvars"}
+    # the sets subtracted as a whole (what the function treats as its locals, judged separately below)
+    subtracted_sets = [local_sources(arg, fa.nodes(st)[0]) for (st, arg) in reductions if arg is not None and _collection_spec(fa, arg, fa.nodes(st)[0]) is None]
+    for (st, arg) in reductions:
+        at_ = fa.nodes(st)[0]
+        spec_ = _collection_spec(fa, arg, at_) if arg is not None else None
+        if arg is None:
+            klass[id(st)] = "other"
+        elif chains_rooted_at_locals(arg, at_):
+            klass[id(st)] = "chains"
+        elif spec_ is not None:
+            # some selection of RES's own elements is removed, but not by first-component membership
+            klass[id(st)] = "chains?" if isinstance(spec_["iter"], ast.Name) and spec_["iter"].id == RES and A.norm(spec_["elt"]) == spec_["var"] else "other"
+        else:
+            s_ = local_sources(arg, at_)
+            klass[id(st)] = "locals" if s_ == WANT else "locals?"
+            srcs |= s_
+    okl = "locals" in klass.values() and "locals?" not in klass.values()
     ck.ob(R, fa.key(None, "locals-removed"), okl, "exactly co_varnames and co_cellvars are treated as local" if okl else
           "the set of names treated as local is %s (expected co_varnames and co_cellvars): globals are dropped or locals kept" % sorted(srcs), fa.where())
-    du = [c for c in fa.calls("difference_update") if A.norm(A.call_recv(c)) == RES]
-    okd = len(du) == 2
+    okd = bool({"locals", "locals?"} & set(klass.values())) and bool({"chains", "chains?"} & set(klass.values()))
     ck.ob(R, fa.key(None, "difference"), okd, "locals and chains rooted at locals are subtracted" if okd else
           "list_dotted_names no longer subtracts both locals and local-rooted chains", fa.where())
     # chains are removed only when their FIRST COMPONENT is a local (membership of the part before
     # the first '.', not a string-prefix test)
-    tr = [s for s in fa.stmts(ast.Assign) if any(isinstance(t, ast.Name) and t.id == TOREM for t in s.targets)]
-    okc = False
-    if len(tr) == 1 and isinstance(tr[0].value, (ast.SetComp, ast.ListComp, ast.GeneratorExp)):
-        comp = tr[0].value
-        var = A.norm(comp.generators[0].target)
-        conds = []
-        for c in comp.generators[0].ifs:
-            conds += A.conj_atoms(c)
-        for c in conds:
-            if isinstance(c, ast.Compare) and len(c.ops) == 1 and isinstance(c.ops[0], ast.In) and A.norm(c.comparators[0]) == LOCALS:
-                left = A.norm(c.left)
-                if left in ("%s[0:%s.find('.')]" % (var, var), "%s[:%s.find('.')]" % (var, var), "%s.split('.')[0]" % var,
-                            "%s.split('.', 1)[0]" % var, "%s.partition('.')[0]" % var):
-                    okc = True
-        if any(isinstance(n, ast.Call) and A.call_attr(n) == "startswith" for n in ast.walk(comp)):
-            okc = False
-        okc = okc and A.norm(comp.generators[0].iter) == RES
+    okc = "chains" in klass.values() and "chains?" not in klass.values()
     ck.ob(R, fa.key(None, "local-rooted-chains"), okc, "a dotted name is dropped only when its first component is a local" if okc else
           "dotted names are not filtered by membership of their first component in the locals (e.g. a string-prefix test): "
           "`steps.base` is dropped when a parameter is called `step`, and the dependency disappears from the closure", fa.where())
     # nothing else narrows the name set between extraction and return
-    narrow = []
-    for st in fa.stmts():
-        if isinstance(st, ast.Assign) and any(isinstance(t, ast.Name) and t.id == RES for t in st.targets):
-            if not (isinstance(st.value, ast.Attribute) and st.value.attr == "references" and isinstance(st.value.value, ast.Name)
-                    and fa.xnorm(st.value.value, fa.nodes(st)[0]).endswith("()")):
-                narrow.append(st)
-        if isinstance(st, ast.AugAssign) and isinstance(st.target, ast.Name) and st.target.id == RES:
-            narrow.append(st)
-        if isinstance(st, ast.Expr) and isinstance(st.value, ast.Call) and A.norm(A.call_recv(st.value)) == RES \
-                and A.call_attr(st.value) in ("difference_update", "intersection_update", "discard", "remove", "clear", "pop", "symmetric_difference_update"):
-            if not (A.call_attr(st.value) == "difference_update" and [A.norm(a) for a in st.value.args] in ([LOCALS], [TOREM])):
-                narrow.append(st)
+    narrow = [st for (st, arg) in reductions if klass[id(st)] == "other"]
     ck.ob(R, fa.key(None, "no-further-narrowing"), not narrow, "the extracted names are only reduced by the locals" if not narrow else
           "the extracted name set is narrowed further (`%s`): names the function really refers to (e.g. only inside a nested lambda or generator) "
           "are dropped, and edits to them never change the version" % A.short(narrow[0], 70), fa.where(narrow[0] if narrow else None))
@@ -1270,7 +2065,9 @@ def check_dotted_names(ck, R):
     ck.ob(R, fa.key(None, "own-source"), okg, "the function's own source is parsed" if okg else "list_dotted_names does not parse inspect.getsource(fn)", fa.where())
     ini = FA(ck, MF + ".__init__")
     dd = [s for s in ini.stmts(ast.Assign) if any(A.dotted(t) == "self.detected_dependencies" for t in s.targets)]
-    okdd = len(dd) == 1 and A.norm(dd[0].value) == "list_dotted_names(self.src_fn) if auto_dependencies else set()"
+    oc = ini.outcomes("self.detected_dependencies") if dd else None
+    okdd = bool(oc) and {txt for (_l, txt) in oc} == {"list_dotted_names(self.src_fn)", "set()"} \
+        and all((("auto_dependencies", True) in l_) == (txt != "set()") and (("auto_dependencies", False) in l_) == (txt == "set()") for (l_, txt) in oc)
     ck.ob(R, ini.key(None, "detected"), okdd, "detected dependencies = dotted names of the source function (when enabled)" if okdd else
           "detected_dependencies is not list_dotted_names(self.src_fn) under auto_dependencies", ini.where())
 
@@ -1280,27 +2077,33 @@ def check_graph_derivation(ck, R):
                "direct = those marked first_level; first_level means 'reached directly from the root'", 4)
     t = FA(ck, "dependency_graph.DependencyGraph.transitive_memento_fn_dependencies")
     r = t.one(t.returns(), "return")
-    gens = [n for n in ast.walk(r.value) if isinstance(n, (ast.GeneratorExp, ast.SetComp, ast.ListComp))]
-    ok = len(gens) == 1
+    # decided on WHAT COLLECTION is returned (comprehension, set(generator) or a set filled by a filtering loop alike)
+    spec = _collection_spec(t, r.value, t.nodes(r)[0]) if r.value is not None and t.nodes(r) else None
+    ok = spec is not None
     if ok:
-        ga = A.alpha(gens[0])
-        ok = A.norm(ga.generators[0].iter) == "self._all_rules" and A.norm(ga.elt) == "_c0.memento_fn"
-        cond = " and ".join(A.norm(c) for c in ga.generators[0].ifs)
-        ok = ok and "hasattr(_c0, 'memento_fn')" in cond and "_c0.memento_fn != self.memento_fn" in cond and "first_level" not in cond and cond.count(" and ") == 1
+        lits = _spec_literals(t, spec)
+        ok = t.xnorm(spec["iter"], spec["iter_at"]) == "self._all_rules" and A.norm(_rename(spec["elt"], spec["var"], "_c0")) == "_c0.memento_fn" \
+            and lits == {("hasattr(_c0, 'memento_fn')", True), ("_c0.memento_fn == self.memento_fn", False)}
     ck.ob(R, t.key(None), ok, "transitive = every rule with a function, except self" if ok else
           "transitive_memento_fn_dependencies is not {rule.memento_fn for all rules with a function, minus self}", t.where())
     d = FA(ck, "dependency_graph.DependencyGraph.direct_memento_fn_dependencies")
+    import re as _re
     txt = A.norm(d.node)
-    okd = "rule.first_level" in txt and "rule.memento_fn != self.memento_fn" in txt and "self._all_rules" in txt
+    mvar = _re.search(r"\b(\w+)\.first_level\b", txt)
+    rv = mvar.group(1) if mvar else "rule"
+    okd = mvar is not None and (("%s.memento_fn != self.memento_fn" % rv) in txt or ("self.memento_fn != %s.memento_fn" % rv) in txt) and "self._all_rules" in txt
     ck.ob(R, d.key(None), okd, "direct = first-level rules with a function, except self" if okd else
           "direct_memento_fn_dependencies is not derived from first_level rules", d.where())
     ini = FA(ck, "dependency_graph.DependencyGraph.__init__")
-    oki = any(A.norm(s) == "self._all_rules = self.memento_fn.hash_rules()" for s in ini.stmts(ast.Assign))
+    oki = any(any(A.dotted(t) == "self._all_rules" for t in s_.targets) and ini.nodes(s_) and ini.xnorm(s_.value, ini.nodes(s_)[0]) in ("self.memento_fn.hash_rules()", "memento_fn.hash_rules()")
+              for s_ in ini.stmts(ast.Assign))
     ck.ob(R, ini.key(None), oki, "the graph reads the function's current hash rules" if oki else "DependencyGraph does not read memento_fn.hash_rules()", ini.where())
     n = FA(ck, CH + ".NonMementoFunctionHashRule.collect_transitive_dependencies")
-    okf = all(A.norm(A.kwarg(c, "first_level")) == "False" for c in n.calls("_visit_dependency")) and bool(n.calls("_visit_dependency"))
+    okf = all(A.norm(_call_arg(ck, c, CH + ".HashRule._visit_dependency", "first_level")) == "False" for c in n.calls("_visit_dependency")) and bool(n.calls("_visit_dependency"))
     ck.ob(R, n.key(None, "first-level-false"), okf, "names reached through a plain helper are not direct" if okf else
           "dependencies reached through a plain helper are marked first_level", n.where())
     hr = FA(ck, MF + ".hash_rules")
-    okh = any(A.call_attr(c) == "_update_dependencies" for c in hr.calls()) and all(A.norm(r.value) == "self._hash_rules" for r in hr.returns())
+    okh = any(A.call_attr(c) == "_update_dependencies" for c in hr.calls()) and bool(hr.returns()) \
+        and all(r.value is not None and hr.nodes(r) and hr.xnorm(r.value, hr.nodes(r)[0]) == "self._hash_rules"
+                and hr.cfg.must_pass(hr.nodes_all(hr.calls("_update_dependencies")), hr.nodes(r)[0]) for r in hr.returns())
     ck.ob(R, hr.key(None), okh, "hash_rules() refreshes before answering" if okh else "hash_rules() does not refresh dependencies first", hr.where())
